@@ -2,6 +2,7 @@
    for every expression without stop-reactive leaves and with unique leaf ids, and every script
    without stop requests, the root receiver completes iff the denotation says so, with exactly
    that outcome, after exactly that many script events. *)
+
 From Coq Require Import ZArith List Bool Arith Lia.
 From V Require Import Calc.CalcDefs Calc.DenoteDefs.
 Import ListNotations.
@@ -10,19 +11,9 @@ Import Calc.
 (* ------------------------------------------------------------------------------------------ *)
 (* generalities                                                                                 *)
 
-Definition stopped_now (ts : option nat) (now : nat) : bool :=
-  match ts with Some c => c <=? now | None => false end.
 
-Definition done_by (r : dres) (n : nat) : bool :=
-  match r with Some (_, t) => t <=? n | None => false end.
 
-(* the part of a result that is known at time m *)
-Definition by_time (r : dres) (m : nat) : dres :=
-  match r with Some (o, t) => if t <=? m then r else None | None => None end.
 
-(* instant c is later than x *)
-Definition later (c : option nat) (x : nat) : Prop :=
-  match c with Some c => x < c | None => True end.
 
 Lemma stopped_by_now : forall ts n, stopped_by ts n = stopped_now ts (2 * n).
 Proof. reflexivity. Qed.
@@ -153,3 +144,2333 @@ Proof.
 Qed.
 
 End WithScript.
+
+(* ------------------------------------------------------------------------------------------ *)
+(* normal forms of the denotation                                                               *)
+
+(* sequential kinds: the successor's bound values and the parked result, if a's outcome starts it *)
+Definition seq_next (k : bkind) (bs : list Z) (oa : outcome) : option (list Z * option outcome) :=
+  match k, oa with
+  | BLetV, OVal v => Some (v :: bs, None)
+  | BLetE, OErr x => Some (x :: bs, None)
+  | BLetD, ODone => Some (bs, None)
+  | BSeq, OVal _ => Some (bs, None)
+  | BFinally, _ => Some (bs, Some oa)
+  | _, _ => None
+  end.
+
+Definition conc_out (k : bkind) (stopped af : bool) (oa ob : outcome) : outcome :=
+  match k with BWhenAll => when_all_out stopped af oa ob | _ => oa end.
+
+Definition conc_result (k : bkind) (ts : option nat) (x : dres * dres * bool) : dres :=
+  match x with
+  | (Some (oa, ta), Some (ob, tb), af) =>
+      Some (conc_out k (stopped_by ts (Nat.max ta tb)) af oa ob, Nat.max ta tb)
+  | _ => None
+  end.
+
+Definition code_b (t0 t : nat) : nat := if t =? t0 then 2 * t0 + 1 else 2 * t.
+
+(* a triggering completion of r has happened by time m *)
+Definition trig_done (k : bkind) (r : dres) (m : nat) : bool :=
+  match r with Some (o, t) => triggers k o && (t <=? m) | None => false end.
+
+Section WithScript.
+Variable script : list sev.
+Notation D := (denote script).
+
+Lemma denote_un : forall k s bs t0 ts,
+  D (Un k s) bs t0 ts =
+  match D s bs t0 (un_ts k ts) with Some (o, t) => Some (un_out k o, t) | None => None end.
+Proof. reflexivity. Qed.
+
+Lemma denote_seq : forall k a b bs t0 ts, is_seq k = true ->
+  D (Bin k a b) bs t0 ts =
+  match D a bs t0 ts with
+  | None => None
+  | Some (oa, t1) =>
+      match seq_next k bs oa with
+      | None => Some (oa, t1)
+      | Some (bs', sv) =>
+          match D b bs' t1 ts with
+          | None => None
+          | Some (ob, t2) => Some (after_second k sv ob, t2)
+          end
+      end
+  end.
+Proof.
+  intros k a b bs t0 ts Hk.
+  destruct k; try discriminate Hk; cbn [denote];
+    destruct (D a bs t0 ts) as [[oa t1]|]; try reflexivity;
+    destruct oa; cbn [seq_next]; try reflexivity;
+    match goal with |- context [D b ?x ?y ?z] => destruct (D b x y z) as [[ob t2]|] end;
+    try reflexivity; destruct ob; reflexivity.
+Qed.
+
+Lemma denote_conc : forall k a b bs t0 ts, is_seq k = false ->
+  D (Bin k a b) bs t0 ts = conc_result k ts (conc_children k (D a bs t0) (D b bs t0) t0 ts).
+Proof.
+  intros k a b bs t0 ts Hk.
+  destruct k; try discriminate Hk; cbn [denote];
+    destruct (conc_children _ (D a bs t0) (D b bs t0) t0 ts) as [[ra rb] af];
+    destruct ra as [[oa ta]|]; destruct rb as [[ob tb]|]; reflexivity.
+Qed.
+
+(* ------------------------------------------------------------------------------------------ *)
+(* completion times: never before the start; after the start only by an event of an own leaf  *)
+
+Definition hit_in (e : sexpr) (t : nat) : Prop :=
+  exists id o', nth_error script (t - 1) = Some (EvLeaf id o') /\ In id (leaf_ids e).
+
+Lemma denote_cause : forall e, no_leafn e = true -> forall bs t0 ts o t,
+  D e bs t0 ts = Some (o, t) -> t = t0 \/ (t0 < t /\ hit_in e t).
+Proof.
+  induction e as [v|x| |n|id|id|k s IHs|k a IHa b IHb]; intros Hn bs t0 ts o t H.
+  - inversion H; auto.
+  - inversion H; auto.
+  - inversion H; auto.
+  - inversion H; auto.
+  - cbn [denote] in H. apply fle_some in H. destruct H as [Ht [Hev _]].
+    right. split; [exact Ht|]. exists id, o. split; [exact Hev|left; reflexivity].
+  - discriminate Hn.
+  - rewrite denote_un in H. destruct (D s bs t0 (un_ts k ts)) as [[o1 t1]|] eqn:Es; [|discriminate].
+    inversion H; subst. apply (IHs Hn) in Es. exact Es.
+  - cbn [no_leafn] in Hn. apply andb_true_iff in Hn. destruct Hn as [Hna Hnb].
+    destruct (is_seq k) eqn:Hk.
+    + rewrite (denote_seq _ _ _ _ _ _ Hk) in H.
+      destruct (D a bs t0 ts) as [[oa t1]|] eqn:Ea; [|discriminate].
+      apply (IHa Hna) in Ea.
+      assert (Ha' : t1 = t0 \/ (t0 < t1 /\ hit_in (Bin k a b) t1)).
+      { destruct Ea as [Ea|[Ea [id [o' [E1 E2]]]]]; [left; exact Ea|right; split; [exact Ea|]].
+        exists id, o'. split; [exact E1|]. cbn [leaf_ids]. apply in_or_app. left; exact E2. }
+      destruct (seq_next k bs oa) as [[bs' sv]|].
+      * destruct (D b bs' t1 ts) as [[ob t2]|] eqn:Eb; [|discriminate]. inversion H; subst.
+        apply (IHb Hnb) in Eb. destruct Eb as [Eb|[Eb [id [o' [E1 E2]]]]].
+        -- subst. exact Ha'.
+        -- right. split; [destruct Ha' as [Ha'|[Ha' _]]; lia|].
+           exists id, o'. split; [exact E1|]. cbn [leaf_ids]. apply in_or_app. right; exact E2.
+      * inversion H; subst. exact Ha'.
+    + rewrite (denote_conc _ _ _ _ _ _ Hk) in H. unfold conc_children in H.
+      set (af := conc_afirst k (D a bs t0) (D b bs t0) t0 ts) in H.
+      set (sg := conc_sigma k (D a bs t0) (D b bs t0) t0 ts) in H.
+      destruct (D a bs t0 (if af then ts else sg)) as [[oa ta]|] eqn:Ea; [|discriminate].
+      destruct (D b bs t0 (if af then sg else ts)) as [[ob tb]|] eqn:Eb; [|discriminate].
+      cbn [conc_result] in H. inversion H; subst.
+      apply (IHa Hna) in Ea. apply (IHb Hnb) in Eb.
+      assert (Ha' : ta = t0 \/ (t0 < ta /\ hit_in (Bin k a b) ta)).
+      { destruct Ea as [Ea|[Ea [id [o' [E1 E2]]]]]; [left; exact Ea|right; split; [exact Ea|]].
+        exists id, o'. split; [exact E1|]. cbn [leaf_ids]. apply in_or_app. left; exact E2. }
+      assert (Hb' : tb = t0 \/ (t0 < tb /\ hit_in (Bin k a b) tb)).
+      { destruct Eb as [Eb|[Eb [id [o' [E1 E2]]]]]; [left; exact Eb|right; split; [exact Eb|]].
+        exists id, o'. split; [exact E1|]. cbn [leaf_ids]. apply in_or_app. right; exact E2. }
+      destruct (Nat.max_spec ta tb) as [[Hlt Hm]|[Hlt Hm]]; rewrite Hm.
+      * destruct Hb' as [Hb'|Hb']; [|right; exact Hb'].
+        destruct Ha' as [Ha'|[Ha' _]]; [left; lia|lia].
+      * destruct Ha' as [Ha'|Ha']; [|right; exact Ha'].
+        destruct Hb' as [Hb'|[Hb' _]]; [left; lia|lia].
+Qed.
+
+Lemma denote_ge : forall e, no_leafn e = true -> forall bs t0 ts o t,
+  D e bs t0 ts = Some (o, t) -> t0 <= t.
+Proof.
+  intros e Hn bs t0 ts o t H. apply (denote_cause e Hn) in H. destruct H as [H|[H _]]; lia.
+Qed.
+
+Lemma denote_le_length : forall e, no_leafn e = true -> forall bs t0 ts o t,
+  D e bs t0 ts = Some (o, t) -> t0 <= length script -> t <= length script.
+Proof.
+  intros e Hn bs t0 ts o t H Hl. apply (denote_cause e Hn) in H.
+  destruct H as [H|[H [id [o' [E _]]]]]; [lia|].
+  assert (t - 1 < length script) by (apply nth_error_Some; congruence). lia.
+Qed.
+
+(* an event for a leaf that is not ours does not complete us *)
+Lemma denote_no_hit : forall e, no_leafn e = true -> forall bs t0 ts n id o',
+  nth_error script n = Some (EvLeaf id o') -> ~ In id (leaf_ids e) -> t0 <= n ->
+  done_by (D e bs t0 ts) n = false -> done_by (D e bs t0 ts) (S n) = false.
+Proof.
+  intros e Hn bs t0 ts n id o' Hev Hni Hle Hp.
+  destruct (D e bs t0 ts) as [[o t]|] eqn:E; [|reflexivity].
+  simpl in *. apply Nat.leb_gt in Hp. apply Nat.leb_gt.
+  apply (denote_cause e Hn) in E. destruct E as [E|[E [id2 [o2 [E1 E2]]]]]; [lia|].
+  destruct (Nat.eq_dec t (S n)) as [Heq|Hne]; [|lia].
+  subst t. replace (S n - 1) with n in E1 by lia. rewrite Hev in E1. inversion E1; subst. contradiction.
+Qed.
+
+End WithScript.
+
+(* ------------------------------------------------------------------------------------------ *)
+(* causality: a stop requested after time m does not change what happens up to time m         *)
+
+Definition causal_fn (d : option nat -> dres) : Prop :=
+  forall c c' m, later c (2 * m) -> later c' (2 * m) -> by_time (d c) m = by_time (d c') m.
+Definition lower_fn (d : option nat -> dres) (t0 : nat) : Prop :=
+  forall c o t, d c = Some (o, t) -> t0 <= t.
+
+Lemma later_omin : forall a b x, later a x -> later b x -> later (omin a b) x.
+Proof. intros [a|] [b|] x Ha Hb; simpl in *; try lia; auto. Qed.
+
+Lemma later_weaken : forall a x y, later a x -> y <= x -> later a y.
+Proof. intros [a|] x y Ha Hl; simpl in *; [lia|auto]. Qed.
+
+Lemma omin_small : forall c m x, later c (2 * m) -> x <= 2 * m + 1 -> omin c (Some x) = Some x.
+Proof. intros [c|] m x Hc Hx; simpl in *; [f_equal; lia|reflexivity]. Qed.
+
+Lemma trig_done_by_time : forall k r m,
+  trig_done k r m = match by_time r m with Some (o, _) => triggers k o | None => false end.
+Proof.
+  intros k [[o t]|] m; simpl; [|reflexivity].
+  destruct (t <=? m); [rewrite andb_true_r|rewrite andb_false_r]; reflexivity.
+Qed.
+
+Lemma trig_done_eq : forall k r r' m, by_time r m = by_time r' m -> trig_done k r m = trig_done k r' m.
+Proof. intros k r r' m E. rewrite !trig_done_by_time, E. reflexivity. Qed.
+
+Lemma trig_done_same : forall k r r' m,
+  by_time r m = by_time r' m -> trig_done k r m = true -> r' = r.
+Proof.
+  intros k [[o t]|] r' m E H; simpl in H; [|discriminate].
+  apply andb_true_iff in H. destruct H as [_ H]. apply Nat.leb_le in H.
+  eapply by_time_eq_some; [exact E|reflexivity|exact H].
+Qed.
+
+Lemma trig_a_small : forall k r m, trig_done k r m = true -> exists x, trig_a k r = Some x /\ x <= 2 * m.
+Proof.
+  intros k [[o t]|] m H; simpl in *; [|discriminate].
+  apply andb_true_iff in H. destruct H as [H1 H2]. rewrite H1. apply Nat.leb_le in H2.
+  eexists; split; [reflexivity|lia].
+Qed.
+
+Lemma trig_a_large : forall k r m, trig_done k r m = false -> later (trig_a k r) (2 * m + 1).
+Proof.
+  intros k [[o t]|] m H; simpl in *; [|exact I].
+  destruct (triggers k o); simpl in *; [|exact I]. apply Nat.leb_gt in H. lia.
+Qed.
+
+Lemma code_b_bounds : forall t0 t, t0 <= t -> 2 * t <= code_b t0 t /\ code_b t0 t <= 2 * t + 1.
+Proof. intros t0 t H. unfold code_b. destruct (t =? t0) eqn:E; [apply Nat.eqb_eq in E; subst|]; lia. Qed.
+
+Lemma trig_b_small : forall k t0 r m, (forall o t, r = Some (o, t) -> t0 <= t) ->
+  trig_done k r m = true -> exists x, trig_b k t0 r = Some x /\ x <= 2 * m + 1.
+Proof.
+  intros k t0 [[o t]|] m Hl H; simpl in *; [|discriminate].
+  apply andb_true_iff in H. destruct H as [H1 H2]. rewrite H1. apply Nat.leb_le in H2.
+  eexists; split; [reflexivity|]. specialize (Hl o t eq_refl).
+  pose proof (code_b_bounds t0 t Hl) as Hb. unfold code_b in Hb. destruct (t =? t0); lia.
+Qed.
+
+Lemma trig_b_large : forall k t0 r m, (forall o t, r = Some (o, t) -> t0 <= t) ->
+  trig_done k r m = false -> later (trig_b k t0 r) (2 * m + 1).
+Proof.
+  intros k t0 [[o t]|] m Hl H; simpl in *; [|exact I].
+  destruct (triggers k o); simpl in *; [|exact I]. apply Nat.leb_gt in H.
+  specialize (Hl o t eq_refl). pose proof (code_b_bounds t0 t Hl) as Hb. unfold code_b in Hb. destruct (t =? t0); lia.
+Qed.
+
+Lemma a_first_small_large : forall xa nb m, xa <= 2 * m -> later nb (2 * m + 1) ->
+  a_first (Some xa) nb = true /\ omin (Some xa) nb = Some xa.
+Proof.
+  intros xa [xb|] m Ha Hb; simpl in *; [|auto]. split; [apply Nat.leb_le; lia|f_equal; lia].
+Qed.
+
+Lemma a_first_large_small : forall na xb m, later na (2 * m + 1) -> xb <= 2 * m + 1 ->
+  a_first na (Some xb) = false /\ omin na (Some xb) = Some xb.
+Proof.
+  intros [xa|] xb m Ha Hb; simpl in *; [|auto]. split; [apply Nat.leb_gt; lia|f_equal; lia].
+Qed.
+
+Lemma omin_some_small : forall xa xb m, xa <= 2 * m -> xb <= 2 * m + 1 ->
+  exists x, omin (Some xa) (Some xb) = Some x /\ x <= 2 * m + 1.
+Proof. intros. simpl. eexists; split; [reflexivity|lia]. Qed.
+
+Lemma conc_result_by_time : forall k c ra rb af m,
+  by_time (conc_result k c (ra, rb, af)) m =
+  match by_time ra m, by_time rb m with
+  | Some (oa, ta), Some (ob, tb) =>
+      Some (conc_out k (stopped_by c (Nat.max ta tb)) af oa ob, Nat.max ta tb)
+  | _, _ => None
+  end.
+Proof.
+  intros k c [[oa ta]|] [[ob tb]|] af m; simpl; try reflexivity.
+  - destruct (ta <=? m) eqn:Ea; destruct (tb <=? m) eqn:Eb;
+      destruct (Nat.max ta tb <=? m) eqn:Em; try reflexivity; exfalso;
+      repeat match goal with
+             | H : (_ <=? _) = true |- _ => apply Nat.leb_le in H
+             | H : (_ <=? _) = false |- _ => apply Nat.leb_gt in H
+             end; lia.
+  - destruct (ta <=? m); reflexivity.
+Qed.
+
+Lemma conc_out_notrig : forall k s af af' oa ob,
+  triggers k oa = false -> triggers k ob = false -> conc_out k s af oa ob = conc_out k s af' oa ob.
+Proof.
+  intros k s af af' oa ob Ha Hb.
+  destruct k; simpl in Ha, Hb; try discriminate.
+  destruct oa; try discriminate. destruct ob; try discriminate. reflexivity.
+Qed.
+
+Lemma stopped_by_later : forall c m t, later c (2 * m) -> t <= m -> stopped_by c t = false.
+Proof.
+  intros [c|] m t Hc Ht; simpl in *; [|reflexivity]. apply Nat.leb_gt. lia.
+Qed.
+
+(* the result does not depend on a late receiver stop *)
+Lemma conc_result_ts_irrel : forall k c c' x m, later c (2 * m) -> later c' (2 * m) ->
+  by_time (conc_result k c x) m = by_time (conc_result k c' x) m.
+Proof.
+  intros k c c' [[ra rb] af] m Hc Hc'. rewrite !conc_result_by_time.
+  destruct (by_time ra m) as [[oa ta]|] eqn:Ea; [|reflexivity].
+  destruct (by_time rb m) as [[ob tb]|] eqn:Eb; [|reflexivity].
+  apply by_time_some in Ea. apply by_time_some in Eb.
+  rewrite (stopped_by_later c m) by (try assumption; lia).
+  rewrite (stopped_by_later c' m) by (try assumption; lia). reflexivity.
+Qed.
+
+Lemma conc_causal : forall k da db t0,
+  lower_fn da t0 -> lower_fn db t0 -> causal_fn da -> causal_fn db ->
+  causal_fn (fun c => conc_result k c (conc_children k da db t0 c)).
+Proof.
+  intros k da db t0 Hla Hlb Hca Hcb c c' m Hc Hc'.
+  pose proof (Hca c c' m Hc Hc') as Ea. pose proof (Hcb c c' m Hc Hc') as Eb.
+  assert (Hlb1 : forall o t, db c = Some (o, t) -> t0 <= t) by (intros o t; apply Hlb).
+  assert (Hlb2 : forall o t, db c' = Some (o, t) -> t0 <= t) by (intros o t; apply Hlb).
+  destruct (trig_done k (da c) m) eqn:Sa; destruct (trig_done k (db c) m) eqn:Sb.
+  - (* both triggered by m *)
+    pose proof (trig_done_same _ _ _ _ Ea Sa) as Ea'. pose proof (trig_done_same _ _ _ _ Eb Sb) as Eb'.
+    destruct (trig_a_small _ _ _ Sa) as [xa [Hxa Hxa']].
+    destruct (trig_b_small _ _ _ _ Hlb1 Sb) as [xb [Hxb Hxb']].
+    assert (Heq : conc_children k da db t0 c = conc_children k da db t0 c').
+    { unfold conc_children, conc_sigma, conc_afirst. rewrite Ea', Eb', Hxa, Hxb.
+      destruct (omin_some_small xa xb m Hxa' Hxb') as [x [Hx Hx']]. rewrite Hx.
+      rewrite (omin_small c m x Hc Hx'), (omin_small c' m x Hc' Hx').
+      destruct (a_first (Some xa) (Some xb)); rewrite ?Ea', ?Eb'; reflexivity. }
+    rewrite <- Heq. apply conc_result_ts_irrel; assumption.
+  - (* only a *)
+    pose proof (trig_done_same _ _ _ _ Ea Sa) as Ea'.
+    assert (Sb' : trig_done k (db c') m = false) by (rewrite <- (trig_done_eq _ _ _ _ Eb); exact Sb).
+    destruct (trig_a_small _ _ _ Sa) as [xa [Hxa Hxa']].
+    pose proof (trig_b_large _ _ _ _ Hlb1 Sb) as Hnb. pose proof (trig_b_large _ _ _ _ Hlb2 Sb') as Hnb'.
+    assert (Heq : conc_children k da db t0 c = conc_children k da db t0 c').
+    { unfold conc_children, conc_sigma, conc_afirst. rewrite Ea', Hxa.
+      destruct (a_first_small_large xa _ m Hxa' Hnb) as [F1 F2].
+      destruct (a_first_small_large xa _ m Hxa' Hnb') as [F1' F2'].
+      rewrite F1, F2, F1', F2'.
+      rewrite (omin_small c m xa Hc) by lia. rewrite (omin_small c' m xa Hc') by lia. rewrite ?Ea'; reflexivity. }
+    rewrite <- Heq. apply conc_result_ts_irrel; assumption.
+  - (* only b *)
+    pose proof (trig_done_same _ _ _ _ Eb Sb) as Eb'.
+    assert (Sa' : trig_done k (da c') m = false) by (rewrite <- (trig_done_eq _ _ _ _ Ea); exact Sa).
+    destruct (trig_b_small _ _ _ _ Hlb1 Sb) as [xb [Hxb Hxb']].
+    pose proof (trig_a_large _ _ _ Sa) as Hna. pose proof (trig_a_large _ _ _ Sa') as Hna'.
+    assert (Heq : conc_children k da db t0 c = conc_children k da db t0 c').
+    { unfold conc_children, conc_sigma, conc_afirst. rewrite Eb', Hxb.
+      destruct (a_first_large_small _ xb m Hna Hxb') as [F1 F2].
+      destruct (a_first_large_small _ xb m Hna' Hxb') as [F1' F2'].
+      rewrite F1, F2, F1', F2'.
+      rewrite (omin_small c m xb Hc Hxb'). rewrite (omin_small c' m xb Hc' Hxb'). rewrite ?Eb'; reflexivity. }
+    rewrite <- Heq. apply conc_result_ts_irrel; assumption.
+  - (* no trigger by m: every stop instant involved is later than m *)
+    assert (Sa' : trig_done k (da c') m = false) by (rewrite <- (trig_done_eq _ _ _ _ Ea); exact Sa).
+    assert (Sb' : trig_done k (db c') m = false) by (rewrite <- (trig_done_eq _ _ _ _ Eb); exact Sb).
+    pose proof (trig_a_large _ _ _ Sa) as Hna. pose proof (trig_a_large _ _ _ Sa') as Hna'.
+    pose proof (trig_b_large _ _ _ _ Hlb1 Sb) as Hnb. pose proof (trig_b_large _ _ _ _ Hlb2 Sb') as Hnb'.
+    assert (Hs : later (conc_sigma k da db t0 c) (2 * m)).
+    { unfold conc_sigma. apply later_omin; [exact Hc|].
+      apply later_omin; eapply later_weaken; try eassumption; lia. }
+    assert (Hs' : later (conc_sigma k da db t0 c') (2 * m)).
+    { unfold conc_sigma. apply later_omin; [exact Hc'|].
+      apply later_omin; eapply later_weaken; try eassumption; lia. }
+    unfold conc_children.
+    set (af := conc_afirst k da db t0 c). set (af' := conc_afirst k da db t0 c').
+    set (pa := if af then c else conc_sigma k da db t0 c).
+    set (pb := if af then conc_sigma k da db t0 c else c).
+    set (pa' := if af' then c' else conc_sigma k da db t0 c').
+    set (pb' := if af' then conc_sigma k da db t0 c' else c').
+    assert (Hpa : later pa (2 * m)) by (unfold pa; destruct af; assumption).
+    assert (Hpb : later pb (2 * m)) by (unfold pb; destruct af; assumption).
+    assert (Hpa' : later pa' (2 * m)) by (unfold pa'; destruct af'; assumption).
+    assert (Hpb' : later pb' (2 * m)) by (unfold pb'; destruct af'; assumption).
+    rewrite !conc_result_by_time.
+    rewrite <- (Hca pa pa' m Hpa Hpa'), <- (Hcb pb pb' m Hpb Hpb').
+    pose proof (trig_done_eq k _ _ _ (Hca pa c m Hpa Hc)) as Ta. rewrite Sa in Ta.
+    pose proof (trig_done_eq k _ _ _ (Hcb pb c m Hpb Hc)) as Tb. rewrite Sb in Tb.
+    rewrite trig_done_by_time in Ta, Tb.
+    destruct (by_time (da pa) m) as [[oa ta]|] eqn:Ra; [|reflexivity].
+    destruct (by_time (db pb) m) as [[ob tb]|] eqn:Rb; [|reflexivity].
+    apply by_time_some in Ra. apply by_time_some in Rb.
+    rewrite (stopped_by_later c m) by (try assumption; lia).
+    rewrite (stopped_by_later c' m) by (try assumption; lia).
+    rewrite (conc_out_notrig k false af af' oa ob Ta Tb). reflexivity.
+Qed.
+
+Lemma by_time_map : forall (f : outcome -> outcome) r m,
+  by_time (match r with Some (o, t) => Some (f o, t) | None => None end) m =
+  match by_time r m with Some (o, t) => Some (f o, t) | None => None end.
+Proof. intros f [[o t]|] m; simpl; [destruct (t <=? m); reflexivity|reflexivity]. Qed.
+
+Lemma later_un_ts : forall k c x, later c x -> later (un_ts k c) x.
+Proof. intros k c x H. destruct k; simpl; auto. Qed.
+
+Lemma stopped_now_false_later : forall c x, stopped_now c x = false -> later c x.
+Proof. intros [c|] x H; simpl in *; [apply Nat.leb_gt in H; lia|exact I]. Qed.
+
+Lemma stopped_now_true : forall c x, stopped_now c x = true -> exists s, c = Some s /\ s <= x.
+Proof. intros [c|] x H; simpl in *; [|discriminate]. apply Nat.leb_le in H. eauto. Qed.
+
+Lemma later_omin_inv : forall a b x, later (omin a b) x -> later a x /\ later b x.
+Proof. intros [a|] [b|] x H; simpl in *; split; auto; lia. Qed.
+
+Lemma stopped_now_omin : forall a b x, stopped_now (omin a b) x = stopped_now a x || stopped_now b x.
+Proof.
+  intros [a|] [b|] x; simpl; try rewrite orb_false_r; try reflexivity.
+  destruct (a <=? x) eqn:Ea; destruct (b <=? x) eqn:Eb; destruct (Nat.min a b <=? x) eqn:Em; try reflexivity; exfalso;
+    repeat match goal with
+           | H : (_ <=? _) = true |- _ => apply Nat.leb_le in H
+           | H : (_ <=? _) = false |- _ => apply Nat.leb_gt in H
+           end; lia.
+Qed.
+
+Section WithScript.
+Variable script : list sev.
+Notation D := (denote script).
+
+Lemma denote_lower : forall e, no_leafn e = true -> forall bs t0, lower_fn (D e bs t0) t0.
+Proof. intros e Hn bs t0 c o t H. eapply denote_ge; eassumption. Qed.
+
+Lemma denote_causal : forall e, no_leafn e = true -> forall bs t0, causal_fn (D e bs t0).
+Proof.
+  induction e as [v|x| |n|id|id|k s IHs|k a IHa b IHb]; intros Hn bs t0 c c' m Hc Hc'; try reflexivity.
+  - discriminate Hn.
+  - rewrite !denote_un, !by_time_map.
+    rewrite (IHs Hn bs t0 (un_ts k c) (un_ts k c') m) by (apply later_un_ts; assumption). reflexivity.
+  - cbn [no_leafn] in Hn. apply andb_true_iff in Hn. destruct Hn as [Hna Hnb].
+    destruct (is_seq k) eqn:Hk.
+    + rewrite !(denote_seq _ _ _ _ _ _ _ Hk).
+      pose proof (IHa Hna bs t0 c c' m Hc Hc') as Ea.
+      destruct (done_by (D a bs t0 c) m) eqn:Da.
+      * destruct (D a bs t0 c) as [[oa t1]|] eqn:Ra; [|discriminate]. simpl in Da. apply Nat.leb_le in Da.
+        rewrite (by_time_eq_some _ _ _ _ _ Ea eq_refl Da).
+        destruct (seq_next k bs oa) as [[bs' sv]|]; [|reflexivity].
+        pose proof (IHb Hnb bs' t1 c c' m Hc Hc') as Eb.
+        rewrite !(by_time_map (after_second k sv)) in *. rewrite Eb. reflexivity.
+      * pose proof Da as Da'. rewrite (by_time_eq_done _ _ _ Ea) in Da'.
+        assert (G : forall cc, done_by (D a bs t0 cc) m = false ->
+                    by_time (match D a bs t0 cc with
+                             | None => None
+                             | Some (oa, t1) =>
+                                 match seq_next k bs oa with
+                                 | None => Some (oa, t1)
+                                 | Some (bs', sv) =>
+                                     match D b bs' t1 cc with
+                                     | None => None
+                                     | Some (ob, t2) => Some (after_second k sv ob, t2)
+                                     end
+                                 end
+                             end) m = None).
+        { intros cc Hd. destruct (D a bs t0 cc) as [[oa t1]|]; [|reflexivity].
+          simpl in Hd. destruct (seq_next k bs oa) as [[bs' sv]|].
+          - destruct (D b bs' t1 cc) as [[ob t2]|] eqn:Rb; [|reflexivity].
+            apply (denote_ge _ _ Hnb) in Rb. apply Nat.leb_gt in Hd.
+            apply by_time_none. simpl. apply Nat.leb_gt. lia.
+          - apply by_time_none. simpl. exact Hd. }
+        rewrite (G c Da), (G c' Da'). reflexivity.
+    + rewrite !(denote_conc _ _ _ _ _ _ _ Hk).
+      exact (conc_causal k (D a bs t0) (D b bs t0) t0
+               (denote_lower a Hna bs t0) (denote_lower b Hnb bs t0)
+               (IHa Hna bs t0) (IHb Hnb bs t0) c c' m Hc Hc').
+Qed.
+
+End WithScript.
+
+(* ------------------------------------------------------------------------------------------ *)
+(* the plan of a concurrent node is self-consistent                                             *)
+Section Plan.
+Variables (k : bkind) (da db : option nat -> dres) (t0 : nat) (ts : option nat).
+Hypothesis Hla : lower_fn da t0.
+Hypothesis Hlb : lower_fn db t0.
+Hypothesis Hca : causal_fn da.
+Hypothesis Hcb : causal_fn db.
+
+Let sg := conc_sigma k da db t0 ts.
+Let af := conc_afirst k da db t0 ts.
+Let pa := if af then ts else sg.
+Let pb := if af then sg else ts.
+
+Lemma trig_a_of : forall r o t, r = Some (o, t) -> triggers k o = true -> trig_a k r = Some (2 * t).
+Proof. intros r o t -> H. simpl. rewrite H. reflexivity. Qed.
+Lemma trig_b_of : forall r o t, r = Some (o, t) -> triggers k o = true -> trig_b k t0 r = Some (code_b t0 t).
+Proof. intros r o t -> H. simpl. rewrite H. reflexivity. Qed.
+
+(* the form of sigma, by who is first *)
+Lemma sigma_af : af = true -> exists xa, trig_a k (da ts) = Some xa /\ sg = omin ts (Some xa) /\
+                                  (forall xb, trig_b k t0 (db ts) = Some xb -> xa <= xb).
+Proof.
+  unfold af, sg, conc_afirst, conc_sigma. intros H.
+  destruct (trig_a k (da ts)) as [xa|]; [|discriminate]. exists xa. split; [reflexivity|].
+  destruct (trig_b k t0 (db ts)) as [xb|]; simpl in *; [|split; [reflexivity|intros; discriminate]].
+  apply Nat.leb_le in H. split; [|intros xb' E; inversion E; subst; lia]. destruct ts; simpl; f_equal; lia.
+Qed.
+
+Lemma sigma_bf : af = false -> sg = omin ts (trig_b k t0 (db ts)) /\
+   (forall xb, trig_b k t0 (db ts) = Some xb -> later (trig_a k (da ts)) xb).
+Proof.
+  unfold af, sg, conc_afirst, conc_sigma. intros H.
+  destruct (trig_a k (da ts)) as [xa|]; destruct (trig_b k t0 (db ts)) as [xb|]; simpl in *;
+    try discriminate; try (split; [reflexivity|intros; try discriminate; exact I]).
+  apply Nat.leb_gt in H. split.
+  - destruct ts; simpl; f_equal; lia.
+  - intros xb' E; inversion E; subst; lia.
+Qed.
+
+(* the child that did not trigger does not trigger before the own source is requested *)
+Lemma plan_a_not_before : af = false -> forall o t, da pa = Some (o, t) -> triggers k o = true ->
+  stopped_now sg (2 * t) = true.
+Proof.
+  intros Haf o t Hr Ht. destruct (stopped_now sg (2 * t)) eqn:E; [reflexivity|exfalso].
+  apply stopped_now_false_later in E.
+  assert (Hts : later ts (2 * t)).
+  { unfold sg, conc_sigma in E. apply later_omin_inv in E. tauto. }
+  unfold pa in Hr. rewrite Haf in Hr.
+  pose proof (Hca sg ts t E Hts) as Ec.
+  pose proof (by_time_eq_some _ _ _ _ _ Ec Hr (le_n t)) as Hr0.
+  pose proof (trig_a_of _ _ _ Hr0 Ht) as Hna.
+  unfold sg, conc_sigma in E. rewrite Hna in E. apply later_omin_inv in E. destruct E as [_ E].
+  apply later_omin_inv in E. destruct E as [E _]. simpl in E. lia.
+Qed.
+
+Lemma plan_b_not_before : af = true -> forall o t, db pb = Some (o, t) -> triggers k o = true ->
+  stopped_now sg (code_b t0 t) = true.
+Proof.
+  intros Haf o t Hr Ht. destruct (stopped_now sg (code_b t0 t)) eqn:E; [reflexivity|exfalso].
+  apply stopped_now_false_later in E.
+  unfold pb in Hr. rewrite Haf in Hr.
+  pose proof (Hlb _ _ _ Hr) as Hge. pose proof (code_b_bounds t0 t Hge) as Hcb'.
+  assert (E2 : later sg (2 * t)) by (eapply later_weaken; [exact E|lia]).
+  assert (Hts : later ts (2 * t)).
+  { unfold sg, conc_sigma in E2. apply later_omin_inv in E2. tauto. }
+  pose proof (Hcb sg ts t E2 Hts) as Ec.
+  pose proof (by_time_eq_some _ _ _ _ _ Ec Hr (le_n t)) as Hr0.
+  pose proof (trig_b_of _ _ _ Hr0 Ht) as Hnb.
+  unfold sg, conc_sigma in E. rewrite Hnb in E. apply later_omin_inv in E. destruct E as [_ E].
+  apply later_omin_inv in E. destruct E as [_ E]. simpl in E. lia.
+Qed.
+
+Lemma trig_a_inv : forall r x, trig_a k r = Some x ->
+  exists o t, r = Some (o, t) /\ triggers k o = true /\ x = 2 * t.
+Proof.
+  intros [[o t]|] x H; simpl in H; [|discriminate]. destruct (triggers k o) eqn:E; [|discriminate].
+  inversion H. exists o, t. auto.
+Qed.
+Lemma trig_b_inv : forall r x, trig_b k t0 r = Some x ->
+  exists o t, r = Some (o, t) /\ triggers k o = true /\ x = code_b t0 t.
+Proof.
+  intros [[o t]|] x H; unfold trig_b in H; [|discriminate]. destruct (triggers k o) eqn:E; [|discriminate].
+  inversion H. exists o, t. auto.
+Qed.
+
+(* sigma is also the first triggering completion of the children as they really run *)
+Lemma plan_fix : sg = omin ts (omin (trig_a k (da pa)) (trig_b k t0 (db pb))).
+Proof.
+  case_eq af; intro Haf.
+  - destruct (sigma_af Haf) as [xa [Hna [Hsg Hnb]]].
+    assert (Epa : pa = ts) by (unfold pa; rewrite Haf; reflexivity). rewrite Epa, Hna.
+    destruct (trig_b k t0 (db pb)) as [xb|] eqn:Eb; [|exact Hsg].
+    destruct (trig_b_inv _ _ Eb) as [o [t [Hr [Ht Hx]]]].
+    pose proof (plan_b_not_before Haf o t Hr Ht) as Hs.
+    apply stopped_now_true in Hs. destruct Hs as [s [Hs1 Hs2]].
+    rewrite Hs1 in *. destruct ts as [c|]; simpl in *; inversion Hsg; subst; f_equal; lia.
+  - destruct (sigma_bf Haf) as [Hsg Hna].
+    assert (Epb : pb = ts) by (unfold pb; rewrite Haf; reflexivity). rewrite Epb.
+    destruct (trig_a k (da pa)) as [xa|] eqn:Ea; [|exact Hsg].
+    destruct (trig_a_inv _ _ Ea) as [o [t [Hr [Ht Hx]]]].
+    pose proof (plan_a_not_before Haf o t Hr Ht) as Hs.
+    apply stopped_now_true in Hs. destruct Hs as [s [Hs1 Hs2]].
+    rewrite Hs1 in *.
+    destruct ts as [c|]; destruct (trig_b k t0 (db _)) as [xb|]; simpl in *;
+      inversion Hsg; subst; f_equal; lia.
+Qed.
+
+(* order of two triggering completions *)
+Lemma plan_order_af : af = true -> forall oa ta ob tb,
+  da pa = Some (oa, ta) -> db pb = Some (ob, tb) -> triggers k ob = true -> 2 * ta <= code_b t0 tb.
+Proof.
+  intros Haf oa ta ob tb Ra Rb Hb.
+  destruct (sigma_af Haf) as [xa [Hna [Hsg Hnb]]].
+  assert (Hxa : xa = 2 * ta).
+  { unfold pa in Ra. rewrite Haf in Ra. rewrite Ra in Hna. simpl in Hna.
+    destruct (triggers k oa); inversion Hna; reflexivity. }
+  pose proof (plan_b_not_before Haf ob tb Rb Hb) as Hs.
+  apply stopped_now_true in Hs. destruct Hs as [s [Hs1 Hs2]].
+  destruct ts as [c|] eqn:Ets; simpl in Hsg.
+  - destruct (Nat.le_gt_cases xa c) as [Hle|Hgt].
+    + rewrite Hs1 in Hsg. inversion Hsg. lia.
+    + (* the receiver's stop is the earlier one: b ran under ts *)
+      assert (Hsgc : sg = Some c) by (rewrite Hsg; f_equal; lia).
+      unfold pb in Rb. rewrite Haf, Hsgc in Rb.
+      pose proof (trig_b_of _ _ _ Rb Hb) as Hnb'. specialize (Hnb _ Hnb'). lia.
+  - rewrite Hs1 in Hsg. inversion Hsg. lia.
+Qed.
+
+Lemma plan_order_bf : af = false -> forall oa ta ob tb,
+  da pa = Some (oa, ta) -> triggers k oa = true -> db pb = Some (ob, tb) -> triggers k ob = true ->
+  code_b t0 tb <= 2 * ta.
+Proof.
+  intros Haf oa ta ob tb Ra Ha Rb Hb.
+  destruct (sigma_bf Haf) as [Hsg Hna].
+  assert (Hnb : trig_b k t0 (db ts) = Some (code_b t0 tb)).
+  { unfold pb in Rb. rewrite Haf in Rb. exact (trig_b_of _ _ _ Rb Hb). }
+  rewrite Hnb in Hsg. specialize (Hna _ Hnb).
+  pose proof (plan_a_not_before Haf oa ta Ra Ha) as Hs.
+  apply stopped_now_true in Hs. destruct Hs as [s [Hs1 Hs2]].
+  destruct ts as [c|] eqn:Ets; simpl in Hsg.
+  - destruct (Nat.le_gt_cases (code_b t0 tb) c) as [Hle|Hgt].
+    + rewrite Hs1 in Hsg. inversion Hsg. lia.
+    + assert (Hsgc : sg = Some c) by (rewrite Hsg; f_equal; lia).
+      unfold pa in Ra. rewrite Haf, Hsgc in Ra.
+      pose proof (trig_a_of _ _ _ Ra Ha) as Hna'. rewrite Hna' in Hna. simpl in Hna. lia.
+  - rewrite Hs1 in Hsg. inversion Hsg. lia.
+Qed.
+
+End Plan.
+
+(* ------------------------------------------------------------------------------------------ *)
+(* the machine, one constructor at a time                                                       *)
+
+Lemma start_Un : forall k s en,
+  start (Un k s) en =
+  let '(sc, tr, r) := start s (un_env k en) in
+  match r with
+  | Some o => let (tr2, o') := un_result k o in (OFin, tr ++ tr2, Some o')
+  | None => (ONode (mk_nst PFirst en) sc OFin, tr, None)
+  end.
+Proof. reflexivity. Qed.
+
+Lemma start_Bin_seq : forall k a b en, is_seq k = true ->
+  start (Bin k a b) en =
+  let '(sa, tra, ra) := start a en in
+  match ra with
+  | None => (ONode (mk_nst PFirst en) sa OFin, tra, None)
+  | Some oa =>
+      match after_first k en oa with
+      | inl o => (OFin, tra, Some o)
+      | inr (en2, sv) =>
+          let '(sb, trb, rb) := start b en2 in
+          match rb with
+          | None => (ONode (ns_set_saved (mk_nst PSecond en) sv) OFin sb, tra ++ trb, None)
+          | Some ob => (OFin, tra ++ trb, Some (after_second k sv ob))
+          end
+      end
+  end.
+Proof. intros k a b en H. cbn [start]. rewrite H. reflexivity. Qed.
+
+Lemma start_Bin_conc : forall k a b en, is_seq k = false ->
+  start (Bin k a b) en =
+  let ns0 := ns_set_own (ns_set_reg (mk_nst PBoth en) (negb (e_stopped en))) (e_stopped en) in
+  let '(sa, tra, ra) := start a (env_own en (own_stop ns0)) in
+  let '(ns1, _, _) :=
+      match ra with
+      | Some oa => conc_child_done k ns0 false oa
+      | None => (ns0, false, None)
+      end in
+  let '(sb, trb, rb) := start b (env_own en (own_stop ns1)) in
+  match rb with
+  | None => (ONode ns1 sa sb, tra ++ trb, None)
+  | Some ob =>
+      let '(ns2, newly, fin) := conc_child_done k ns1 true ob in
+      match fin with
+      | Some _ => finish_conc k ns2 sa OFin (tra ++ trb) fin false
+      | None =>
+          if newly then
+            let '(sa', tra2, ra2) := stop a sa in
+            match ra2 with
+            | Some oa =>
+                let '(ns3, _, fin3) := conc_child_done k ns2 false oa in
+                finish_conc k ns3 sa' OFin (tra ++ trb ++ tra2) fin3 false
+            | None => (ONode ns2 sa' OFin, tra ++ trb ++ tra2, None)
+            end
+          else (ONode ns2 sa OFin, tra ++ trb, None)
+      end
+  end.
+Proof. intros k a b en H. cbn [start]. rewrite H. reflexivity. Qed.
+
+Lemma stop_Un : forall k s ns sc x,
+  stop (Un k s) (ONode ns sc x) =
+  match k with
+  | UUnstoppable => (ONode ns sc x, [], None)
+  | _ =>
+      let ns' := ns_set_env ns (env_with_stop (n_env ns) true) in
+      let '(sc', tr, r) := stop s sc in
+      match r with
+      | Some o => let (tr2, o') := un_result k o in (OFin, tr ++ tr2, Some o')
+      | None => (ONode ns' sc' OFin, tr, None)
+      end
+  end.
+Proof. intros. destruct k; reflexivity. Qed.
+
+Lemma stop_Bin_seq : forall k a b ns sa sb, is_seq k = true ->
+  stop (Bin k a b) (ONode ns sa sb) =
+  let ns' := ns_set_env ns (env_with_stop (n_env ns) true) in
+  match ph ns with
+  | PFirst =>
+      let '(sa', tra, ra) := stop a sa in
+      match ra with
+      | None => (ONode ns' sa' sb, tra, None)
+      | Some oa =>
+          match after_first k (n_env ns') oa with
+          | inl o => (OFin, tra, Some o)
+          | inr (en2, sv) =>
+              let '(sb', trb, rb) := start b en2 in
+              match rb with
+              | None => (ONode (ns_set_saved (ns_set_ph ns' PSecond) sv) OFin sb', tra ++ trb, None)
+              | Some ob => (OFin, tra ++ trb, Some (after_second k sv ob))
+              end
+          end
+      end
+  | _ =>
+      let '(sb', trb, rb) := stop b sb in
+      match rb with
+      | None => (ONode ns' sa sb', trb, None)
+      | Some ob => (OFin, trb, Some (after_second k (saved ns) ob))
+      end
+  end.
+Proof. intros k a b ns sa sb H. cbn [stop]. rewrite H. reflexivity. Qed.
+
+Lemma stop_Bin_conc : forall k a b ns sa sb, is_seq k = false ->
+  stop (Bin k a b) (ONode ns sa sb) =
+  let ns' := ns_set_env ns (env_with_stop (n_env ns) true) in
+  if own_stop ns then (ONode ns' sa sb, [], None)
+  else
+    let ns1 := ns_set_own ns' true in
+    let '(sb', trb, rb) := if bdone ns1 then (sb, [], None) else stop b sb in
+    let '(ns2, _, fin1) :=
+        match rb with
+        | Some ob => conc_child_done k ns1 true ob
+        | None => (ns1, false, None)
+        end in
+    match fin1 with
+    | Some _ => finish_conc k ns2 sa sb' trb fin1 (leaky k)
+    | None =>
+        let '(sa', tra, ra) := if adone ns2 then (sa, [], None) else stop a sa in
+        let '(ns3, _, fin2) :=
+            match ra with
+            | Some oa => conc_child_done k ns2 false oa
+            | None => (ns2, false, None)
+            end in
+        finish_conc k ns3 sa' sb' (trb ++ tra) fin2 (leaky k)
+    end.
+Proof. intros k a b ns sa sb H. cbn [stop]. rewrite H. reflexivity. Qed.
+
+Lemma leafev_Un : forall k s ns sc x id o,
+  leafev (Un k s) (ONode ns sc x) id o =
+  let '((sc', tr, r), hit) := leafev s sc id o in
+  match r with
+  | Some oc => let (tr2, o') := un_result k oc in ((OFin, tr ++ tr2, Some o'), hit)
+  | None => ((ONode ns sc' OFin, tr, None), hit)
+  end.
+Proof. reflexivity. Qed.
+
+Lemma leafev_Bin_seq : forall k a b ns sa sb id o, is_seq k = true ->
+  leafev (Bin k a b) (ONode ns sa sb) id o =
+  match ph ns with
+  | PFirst =>
+      let '((sa', tra, ra), hit) := leafev a sa id o in
+      match ra with
+      | None => ((ONode ns sa' sb, tra, None), hit)
+      | Some oa =>
+          match after_first k (n_env ns) oa with
+          | inl o' => ((OFin, tra, Some o'), hit)
+          | inr (en2, sv) =>
+              let '(sb', trb, rb) := start b en2 in
+              match rb with
+              | None => ((ONode (ns_set_saved (ns_set_ph ns PSecond) sv) OFin sb', tra ++ trb, None), hit)
+              | Some ob => ((OFin, tra ++ trb, Some (after_second k sv ob)), hit)
+              end
+          end
+      end
+  | _ =>
+      let '((sb', trb, rb), hit) := leafev b sb id o in
+      match rb with
+      | None => ((ONode ns sa sb', trb, None), hit)
+      | Some ob => ((OFin, trb, Some (after_second k (saved ns) ob)), hit)
+      end
+  end.
+Proof. intros k a b ns sa sb id o H. cbn [leafev]. rewrite H. reflexivity. Qed.
+
+Lemma leafev_Bin_conc : forall k a b ns sa sb id o, is_seq k = false ->
+  leafev (Bin k a b) (ONode ns sa sb) id o =
+  let '((sa', tra, ra), hita) := if adone ns then ((sa, [], None), false) else leafev a sa id o in
+  if hita then
+    match ra with
+    | None => ((ONode ns sa' sb, tra, None), true)
+    | Some oa =>
+        let '(ns1, newly, fin) := conc_child_done k ns false oa in
+        match fin with
+        | Some _ => (finish_conc k ns1 sa' sb tra fin false, true)
+        | None =>
+            if newly then
+              let '(sb', trb, rb) := stop b sb in
+              match rb with
+              | Some ob =>
+                  let '(ns2, _, fin2) := conc_child_done k ns1 true ob in
+                  (finish_conc k ns2 sa' sb' (tra ++ trb) fin2 false, true)
+              | None => ((ONode ns1 sa' sb', tra ++ trb, None), true)
+              end
+            else ((ONode ns1 sa' sb, tra, None), true)
+        end
+    end
+  else
+    let '((sb', trb, rb), hitb) := if bdone ns then ((sb, [], None), false) else leafev b sb id o in
+    match rb with
+    | None => ((ONode ns sa sb', trb, None), hitb)
+    | Some ob =>
+        let '(ns1, newly, fin) := conc_child_done k ns true ob in
+        match fin with
+        | Some _ => (finish_conc k ns1 sa sb' trb fin false, hitb)
+        | None =>
+            if newly then
+              let '(sa', tra, ra) := stop a sa in
+              match ra with
+              | Some oa =>
+                  let '(ns2, _, fin2) := conc_child_done k ns1 false oa in
+                  (finish_conc k ns2 sa' sb' (trb ++ tra) fin2 false, hitb)
+              | None => ((ONode ns1 sa' sb', trb ++ tra, None), hitb)
+              end
+            else ((ONode ns1 sa sb', trb, None), hitb)
+        end
+    end.
+Proof. intros k a b ns sa sb id o H. cbn [leafev]. rewrite H. reflexivity. Qed.
+
+Lemma leafev_OFin : forall e id o, leafev e OFin id o = ((OFin, [], None), false).
+Proof. intros e id o. destruct e; reflexivity. Qed.
+
+(* ------------------------------------------------------------------------------------------ *)
+(* the local rules of the machine against the documented ones                                   *)
+
+Lemma un_result_out : forall k o, snd (un_result k o) = un_out k o.
+Proof.
+  intros k o. destruct k; destruct o; try reflexivity;
+    unfold un_result, apply_fn, un_out, fn_out; simpl; reflexivity.
+Qed.
+
+Lemma after_first_spec : forall k en oa,
+  match seq_next k (e_bound en) oa with
+  | Some (bs', sv) => exists en2, after_first k en oa = inr (en2, sv) /\ e_bound en2 = bs' /\
+                                  e_stopped en2 = e_stopped en
+  | None => after_first k en oa = inl oa
+  end.
+Proof.
+  intros k en oa. destruct k; destruct oa; simpl; try reflexivity;
+    eexists; split; try reflexivity; split; reflexivity.
+Qed.
+
+Definition conc_saved_step (k : bkind) (sv : option outcome) (i : bool) (o : outcome) : option outcome :=
+  match k with
+  | BWhenAll => match sv, o with
+                | None, OVal _ => None
+                | None, _ => Some o
+                | Some s, _ => Some s
+                end
+  | _ => if i then sv else Some o
+  end.
+
+Definition conc_final (k : bkind) (stopped : bool) (sv : option outcome) (x y : Z) : outcome :=
+  match k with
+  | BWhenAll => if stopped then ODone
+                else match sv with Some s => s | None => OVal (combine x y) end
+  | _ => match sv with Some s => s | None => ODone end
+  end.
+
+Definition oval (o : outcome) : Z := match o with OVal v => v | _ => 0%Z end.
+
+Lemma ccd_spec : forall k ns i o, is_seq k = false ->
+  exists ns2 fin,
+    conc_child_done k ns i o = (ns2, triggers k o && negb (own_stop ns), fin) /\
+    n_env ns2 = n_env ns /\ own_stop ns2 = own_stop ns || triggers k o /\
+    adone ns2 = (if i then adone ns else true) /\ bdone ns2 = (if i then true else bdone ns) /\
+    va ns2 = (if i then va ns else oval o) /\ vb ns2 = (if i then oval o else vb ns) /\
+    saved ns2 = conc_saved_step k (saved ns) i o /\
+    fin = if adone ns2 && bdone ns2
+          then Some (conc_final k (e_stopped (n_env ns)) (saved ns2) (va ns2) (vb ns2)) else None.
+Proof.
+  intros k ns i o Hk.
+  destruct k; try discriminate Hk; unfold conc_child_done; cbv zeta;
+    match goal with |- context [ns_set_saved ?a ?b] => set (ns2 := ns_set_saved a b) end;
+    exists ns2.
+  - exists (if adone ns2 && bdone ns2
+            then Some (conc_final BWhenAll (e_stopped (n_env ns)) (saved ns2) (va ns2) (vb ns2)) else None).
+    split.
+    + destruct i; destruct o; destruct (adone ns2 && bdone ns2) eqn:E; reflexivity.
+    + subst ns2. destruct i; destruct o; destruct (own_stop ns); simpl;
+        repeat split; try reflexivity; destruct (saved ns); reflexivity.
+  - exists (if adone ns2 && bdone ns2
+            then Some (conc_final BStopWhen (e_stopped (n_env ns)) (saved ns2) (va ns2) (vb ns2)) else None).
+    split.
+    + destruct i; destruct o; destruct (adone ns2 && bdone ns2) eqn:E; reflexivity.
+    + subst ns2. destruct i; destruct o; destruct (own_stop ns); simpl;
+        repeat split; reflexivity.
+Qed.
+
+(* ------------------------------------------------------------------------------------------ *)
+(* the simulation invariant                                                                     *)
+
+Definition nonval (o : outcome) : bool := match o with OVal _ => false | _ => true end.
+
+(* the error/done r completed with by time n *)
+Definition fail_by (r : dres) (n : nat) : option outcome :=
+  match r with Some (o, t) => if (t <=? n) && nonval o then Some o else None | None => None end.
+
+(* what a concurrent node has parked by time n *)
+Definition conc_saved (k : bkind) (af : bool) (ra rb : dres) (n : nat) : option outcome :=
+  match k with
+  | BWhenAll => match fail_by ra n, fail_by rb n with
+                | Some oa, Some ob => Some (if af then oa else ob)
+                | Some oa, None => Some oa
+                | None, fb => fb
+                end
+  | _ => match ra with Some (oa, ta) => if ta <=? n then Some oa else None | None => None end
+  end.
+
+Definition val_ok (r : dres) (n : nat) (v : Z) : Prop :=
+  forall x t, r = Some (OVal x, t) -> t <= n -> v = x.
+
+Definition un_flag (k : ukind) (F : bool) : bool := match k with UUnstoppable => false | _ => F end.
+
+Section WithScript.
+Variable script : list sev.
+Notation D := (denote script).
+
+(* [Inv e bs t0 ts n F st]: st is the state of the operation e, started at time t0 with bound
+   values bs and stop instant ts, after n events, when it has not completed yet; F tells whether
+   the stop request has been delivered to it. *)
+Fixpoint Inv (e : sexpr) (bs : list Z) (t0 : nat) (ts : option nat) (n : nat) (F : bool) (st : ost)
+         {struct e} : Prop :=
+  match e with
+  | Leaf id => exists seen, st = OLeaf false seen
+  | Un k s => exists ns sc, st = ONode ns sc OFin /\ Inv s bs t0 (un_ts k ts) n (un_flag k F) sc
+  | Bin k a b =>
+      exists ns sa sb, st = ONode ns sa sb /\ e_bound (n_env ns) = bs /\ e_stopped (n_env ns) = F /\
+      if is_seq k then
+        match D a bs t0 ts with
+        | Some (oa, t1) =>
+            if t1 <=? n then
+              match seq_next k bs oa with
+              | Some (bs', sv) => ph ns <> PFirst /\ saved ns = sv /\ Inv b bs' t1 ts n F sb
+              | None => False
+              end
+            else ph ns = PFirst /\ Inv a bs t0 ts n F sa
+        | None => ph ns = PFirst /\ Inv a bs t0 ts n F sa
+        end
+      else
+        let sg := conc_sigma k (D a bs t0) (D b bs t0) t0 ts in
+        let af := conc_afirst k (D a bs t0) (D b bs t0) t0 ts in
+        let ra := D a bs t0 (if af then ts else sg) in
+        let rb := D b bs t0 (if af then sg else ts) in
+        own_stop ns = F || trig_done k ra n || trig_done k rb n /\
+        adone ns = done_by ra n /\ bdone ns = done_by rb n /\
+        (done_by ra n = false -> Inv a bs t0 (if af then ts else sg) n (own_stop ns) sa) /\
+        (done_by rb n = false -> Inv b bs t0 (if af then sg else ts) n (own_stop ns) sb) /\
+        saved ns = conc_saved k af ra rb n /\ val_ok ra n (va ns) /\ val_ok rb n (vb ns)
+  | _ => False
+  end.
+
+Lemma not_in_app : forall (id : nat) l1 l2, ~ In id (l1 ++ l2) -> ~ In id l1 /\ ~ In id l2.
+Proof. intros id l1 l2 H. split; intro H'; apply H; apply in_or_app; [left|right]; exact H'. Qed.
+
+(* an event for a leaf that is not ours leaves the state alone *)
+Lemma leafev_miss : forall e bs t0 ts n F st id o,
+  Inv e bs t0 ts n F st -> ~ In id (leaf_ids e) -> leafev e st id o = ((st, [], None), false).
+Proof.
+  induction e as [v|x| |m|id'|id'|k s IHs|k a IHa b IHb]; intros bs t0 ts n F st id o HI Hni;
+    try (exfalso; exact HI).
+  - destruct HI as [seen ->]. cbn [leafev]. destruct (Nat.eqb id id') eqn:E; [|reflexivity].
+    apply Nat.eqb_eq in E. subst. exfalso. apply Hni. left; reflexivity.
+  - destruct HI as [ns [sc [-> Hs]]]. rewrite leafev_Un.
+    rewrite (IHs _ _ _ _ _ _ id o Hs Hni). reflexivity.
+  - destruct HI as [ns [sa [sb [-> [Hbs [Hst Hrest]]]]]].
+    cbn [leaf_ids] in Hni. apply not_in_app in Hni. destruct Hni as [Hnia Hnib].
+    destruct (is_seq k) eqn:Hk.
+    + rewrite (leafev_Bin_seq _ _ _ _ _ _ _ _ Hk).
+      assert (G1 : ph ns = PFirst /\ Inv a bs t0 ts n F sa ->
+                   match ph ns with
+                   | PFirst =>
+                       let '(sa', tra, ra, hit) := leafev a sa id o in
+                       match ra with
+                       | Some oa =>
+                           match after_first k (n_env ns) oa with
+                           | inl o' => (OFin, tra, Some o', hit)
+                           | inr (en2, sv) =>
+                               let '(sb', trb, rb) := start b en2 in
+                               match rb with
+                               | Some ob => (OFin, tra ++ trb, Some (after_second k sv ob), hit)
+                               | None =>
+                                   (ONode (ns_set_saved (ns_set_ph ns PSecond) sv) OFin sb', tra ++ trb, None, hit)
+                               end
+                           end
+                       | None => (ONode ns sa' sb, tra, None, hit)
+                       end
+                   | _ =>
+                       let '(sb', trb, rb, hit) := leafev b sb id o in
+                       match rb with
+                       | Some ob => (OFin, trb, Some (after_second k (saved ns) ob), hit)
+                       | None => (ONode ns sa sb', trb, None, hit)
+                       end
+                   end = (ONode ns sa sb, [], None, false)).
+      { intros [Hph Ha]. rewrite Hph. rewrite (IHa _ _ _ _ _ _ id o Ha Hnia). reflexivity. }
+      destruct (D a bs t0 ts) as [[oa t1]|]; [|exact (G1 Hrest)].
+      destruct (t1 <=? n); [|exact (G1 Hrest)].
+      destruct (seq_next k bs oa) as [[bs' sv]|]; [|contradiction].
+      destruct Hrest as [Hph [Hsv Hb]].
+      destruct (ph ns); [contradiction| |]; rewrite (IHb _ _ _ _ _ _ id o Hb Hnib); reflexivity.
+    + rewrite (leafev_Bin_conc _ _ _ _ _ _ _ _ Hk). cbv zeta in Hrest.
+      destruct Hrest as [Hown [Had [Hbd [Ha [Hb _]]]]].
+      assert (Ga : (if adone ns then (sa, [], None, false) else leafev a sa id o) = ((sa, [], None), false)).
+      { destruct (adone ns); [reflexivity|]. symmetry in Had.
+        exact (IHa _ _ _ _ _ _ id o (Ha Had) Hnia). }
+      assert (Gb : (if bdone ns then (sb, [], None, false) else leafev b sb id o) = ((sb, [], None), false)).
+      { destruct (bdone ns); [reflexivity|]. symmetry in Hbd.
+        exact (IHb _ _ _ _ _ _ id o (Hb Hbd) Hnib). }
+      rewrite Ga. cbv beta iota. rewrite Gb. reflexivity.
+Qed.
+
+(* --- nothing of ours happens: time advances ------------------------------------------------ *)
+
+Lemma done_by_mono : forall r n, done_by r n = true -> done_by r (S n) = true.
+Proof. intros [[o t]|] n H; simpl in *; [|discriminate]. apply Nat.leb_le in H. apply Nat.leb_le. lia. Qed.
+
+Lemma done_by_un : forall k s bs t0 ts n,
+  done_by (D (Un k s) bs t0 ts) n = done_by (D s bs t0 (un_ts k ts)) n.
+Proof. intros. rewrite denote_un. destruct (D s bs t0 (un_ts k ts)) as [[o t]|]; reflexivity. Qed.
+
+Lemma done_by_seq_b : forall k a b bs t0 ts n oa t1 bs' sv, is_seq k = true ->
+  D a bs t0 ts = Some (oa, t1) -> seq_next k bs oa = Some (bs', sv) ->
+  done_by (D (Bin k a b) bs t0 ts) n = done_by (D b bs' t1 ts) n.
+Proof.
+  intros k a b bs t0 ts n oa t1 bs' sv Hk Ha Hs. rewrite (denote_seq _ _ _ _ _ _ _ Hk), Ha, Hs.
+  destruct (D b bs' t1 ts) as [[ob t2]|]; reflexivity.
+Qed.
+
+Definition quiet (r : dres) (n : nat) : Prop := done_by r (S n) = done_by r n.
+
+Lemma trig_done_quiet : forall k r n, quiet r n -> trig_done k r (S n) = trig_done k r n.
+Proof. intros k [[o t]|] n H; unfold quiet in H; simpl in *; [rewrite H|]; reflexivity. Qed.
+
+Lemma fail_by_quiet : forall r n, quiet r n -> fail_by r (S n) = fail_by r n.
+Proof. intros [[o t]|] n H; unfold quiet in H; simpl in *; [rewrite H|]; reflexivity. Qed.
+
+Lemma conc_saved_quiet : forall k af ra rb n, quiet ra n -> quiet rb n ->
+  conc_saved k af ra rb (S n) = conc_saved k af ra rb n.
+Proof.
+  intros k af ra rb n Ha Hb. unfold conc_saved.
+  rewrite (fail_by_quiet ra n Ha), (fail_by_quiet rb n Hb).
+  destruct k; try reflexivity; destruct ra as [[oa ta]|]; try reflexivity;
+    unfold quiet in Ha; simpl in Ha; rewrite Ha; reflexivity.
+Qed.
+
+Lemma val_ok_quiet : forall r n v, quiet r n -> val_ok r n v -> val_ok r (S n) v.
+Proof.
+  intros r n v Hq Hv x t Hr Ht. apply (Hv x t Hr). unfold quiet in Hq. rewrite Hr in Hq. simpl in Hq.
+  apply Nat.leb_le in Ht. rewrite Ht in Hq. symmetry in Hq. apply Nat.leb_le in Hq. exact Hq.
+Qed.
+
+Lemma quiet_of : forall e, no_leafn e = true -> forall bs t0 ts n id o,
+  nth_error script n = Some (EvLeaf id o) -> ~ In id (leaf_ids e) -> t0 <= n ->
+  quiet (D e bs t0 ts) n.
+Proof.
+  intros e Hn bs t0 ts n id o Hev Hni Hle. unfold quiet.
+  destruct (done_by (D e bs t0 ts) n) eqn:E; [apply done_by_mono; exact E|].
+  eapply denote_no_hit; eassumption.
+Qed.
+
+Lemma inv_advance : forall e, no_leafn e = true -> forall bs t0 ts n F st id o,
+  t0 <= n -> nth_error script n = Some (EvLeaf id o) -> ~ In id (leaf_ids e) ->
+  done_by (D e bs t0 ts) n = false -> Inv e bs t0 ts n F st -> Inv e bs t0 ts (S n) F st.
+Proof.
+  induction e as [v|x| |m|id'|id'|k s IHs|k a IHa b IHb]; intros Hn bs t0 ts n F st id o Hle Hev Hni Hp HI;
+    try (exfalso; exact HI).
+  - exact HI.
+  - destruct HI as [ns [sc [-> Hs]]]. exists ns, sc. split; [reflexivity|].
+    rewrite done_by_un in Hp. exact (IHs Hn _ _ _ _ _ _ id o Hle Hev Hni Hp Hs).
+  - cbn [no_leafn] in Hn. apply andb_true_iff in Hn. destruct Hn as [Hna Hnb].
+    destruct HI as [ns [sa [sb [-> [Hbs [Hst Hrest]]]]]].
+    cbn [leaf_ids] in Hni. apply not_in_app in Hni. destruct Hni as [Hnia Hnib].
+    exists ns, sa, sb. split; [reflexivity|]. split; [exact Hbs|]. split; [exact Hst|].
+    destruct (is_seq k) eqn:Hk.
+    + destruct (D a bs t0 ts) as [[oa t1]|] eqn:Ra.
+      * destruct (t1 <=? n) eqn:Et.
+        -- apply Nat.leb_le in Et. assert (Et' : (t1 <=? S n) = true) by (apply Nat.leb_le; lia).
+           rewrite Et'. destruct (seq_next k bs oa) as [[bs' sv]|] eqn:Hsn; [|contradiction].
+           destruct Hrest as [Hph [Hsv Hb]]. split; [exact Hph|]. split; [exact Hsv|].
+           rewrite (done_by_seq_b _ _ _ _ _ _ _ _ _ _ _ Hk Ra Hsn) in Hp.
+           exact (IHb Hnb _ _ _ _ _ _ id o Et Hev Hnib Hp Hb).
+        -- assert (Hpa : done_by (D a bs t0 ts) n = false) by (rewrite Ra; exact Et).
+           pose proof (denote_no_hit script a Hna bs t0 ts n id o Hev Hnia Hle Hpa) as Hpa'.
+           rewrite Ra in Hpa'. simpl in Hpa'. rewrite Hpa'.
+           destruct Hrest as [Hph Ha]. split; [exact Hph|].
+           exact (IHa Hna _ _ _ _ _ _ id o Hle Hev Hnia Hpa Ha).
+      * destruct Hrest as [Hph Ha]. split; [exact Hph|].
+        assert (Hpa : done_by (D a bs t0 ts) n = false) by (rewrite Ra; reflexivity).
+        exact (IHa Hna _ _ _ _ _ _ id o Hle Hev Hnia Hpa Ha).
+    + cbv zeta in Hrest |- *.
+      set (sg := conc_sigma k (D a bs t0) (D b bs t0) t0 ts) in *.
+      set (af := conc_afirst k (D a bs t0) (D b bs t0) t0 ts) in *.
+      set (pa := if af then ts else sg) in *. set (pb := if af then sg else ts) in *.
+      destruct Hrest as [Hown [Had [Hbd [Ha [Hb [Hsv [Hva Hvb]]]]]]].
+      pose proof (quiet_of a Hna bs t0 pa n id o Hev Hnia Hle) as Qa.
+      pose proof (quiet_of b Hnb bs t0 pb n id o Hev Hnib Hle) as Qb.
+      rewrite (trig_done_quiet k _ n Qa), (trig_done_quiet k _ n Qb).
+      rewrite (conc_saved_quiet k af _ _ n Qa Qb). unfold quiet in Qa, Qb. rewrite Qa, Qb.
+      split; [exact Hown|]. split; [exact Had|]. split; [exact Hbd|].
+      split; [|split; [|split; [exact Hsv|split; apply val_ok_quiet; assumption]]].
+      * intros Hpa. exact (IHa Hna _ _ _ _ _ _ id o Hle Hev Hnia Hpa (Ha Hpa)).
+      * intros Hpb. exact (IHb Hnb _ _ _ _ _ _ id o Hle Hev Hnib Hpb (Hb Hpb)).
+Qed.
+
+(* --- a stop request is delivered: nothing completes (there are no stop-reactive leaves) ---- *)
+
+Lemma stop_spec : forall e, no_leafn e = true -> forall bs t0 ts n st,
+  Inv e bs t0 ts n false st ->
+  exists st' tr, stop e st = (st', tr, None) /\ Inv e bs t0 ts n true st'.
+Proof.
+  induction e as [v|x| |m|id'|id'|k s IHs|k a IHa b IHb]; intros Hn bs t0 ts n st HI;
+    try (exfalso; exact HI).
+  - destruct HI as [seen ->]. destruct seen; cbn [stop]; do 2 eexists; (split; [reflexivity|]); eexists; reflexivity.
+  - destruct HI as [ns [sc [-> Hs]]]. rewrite stop_Un.
+    destruct k;
+      try (destruct (IHs Hn _ _ _ _ _ Hs) as [sc' [tr [Es Hs']]]; cbv zeta; rewrite Es;
+           do 2 eexists; (split; [reflexivity|]); do 2 eexists; (split; [reflexivity|exact Hs'])).
+    do 2 eexists. split; [reflexivity|]. exists ns, sc. split; [reflexivity|exact Hs].
+  - cbn [no_leafn] in Hn. apply andb_true_iff in Hn. destruct Hn as [Hna Hnb].
+    destruct HI as [ns [sa [sb [-> [Hbs [Hst Hrest]]]]]].
+    destruct (is_seq k) eqn:Hk.
+    + rewrite (stop_Bin_seq _ _ _ _ _ _ Hk). cbv zeta.
+      assert (G1 : ph ns = PFirst /\ Inv a bs t0 ts n false sa ->
+                   exists sa' tr, stop a sa = (sa', tr, None) /\ ph ns = PFirst /\ Inv a bs t0 ts n true sa').
+      { intros [Hph Ha]. destruct (IHa Hna _ _ _ _ _ Ha) as [sa' [tr [Es Ha']]]. exists sa', tr. auto. }
+      destruct (D a bs t0 ts) as [[oa t1]|] eqn:Ra.
+      * destruct (t1 <=? n) eqn:Et.
+        -- destruct (seq_next k bs oa) as [[bs' sv]|] eqn:Hsn; [|contradiction].
+           destruct Hrest as [Hph [Hsv Hb]].
+           destruct (IHb Hnb _ _ _ _ _ Hb) as [sb' [tr [Es Hb']]].
+           exists (ONode (ns_set_env ns (env_with_stop (n_env ns) true)) sa sb'), tr.
+           split; [destruct (ph ns); [contradiction| |]; rewrite Es; reflexivity|].
+           exists (ns_set_env ns (env_with_stop (n_env ns) true)), sa, sb'.
+           split; [reflexivity|]. split; [exact Hbs|]. split; [reflexivity|].
+           rewrite Hk, Ra, Et, Hsn. auto.
+        -- destruct (G1 Hrest) as [sa' [tr [Es [Hph Ha']]]].
+           exists (ONode (ns_set_env ns (env_with_stop (n_env ns) true)) sa' sb), tr.
+           split; [rewrite Hph, Es; reflexivity|].
+           exists (ns_set_env ns (env_with_stop (n_env ns) true)), sa', sb.
+           split; [reflexivity|]. split; [exact Hbs|]. split; [reflexivity|].
+           rewrite Hk, Ra, Et. auto.
+      * destruct (G1 Hrest) as [sa' [tr [Es [Hph Ha']]]].
+        exists (ONode (ns_set_env ns (env_with_stop (n_env ns) true)) sa' sb), tr.
+        split; [rewrite Hph, Es; reflexivity|].
+        exists (ns_set_env ns (env_with_stop (n_env ns) true)), sa', sb.
+        split; [reflexivity|]. split; [exact Hbs|]. split; [reflexivity|].
+        rewrite Hk, Ra. auto.
+    + rewrite (stop_Bin_conc _ _ _ _ _ _ Hk). cbv zeta in Hrest |- *.
+      set (sg := conc_sigma k (D a bs t0) (D b bs t0) t0 ts) in *.
+      set (af := conc_afirst k (D a bs t0) (D b bs t0) t0 ts) in *.
+      set (pa := if af then ts else sg) in *. set (pb := if af then sg else ts) in *.
+      destruct Hrest as [Hown [Had [Hbd [Ha [Hb [Hsv [Hva Hvb]]]]]]].
+      destruct (own_stop ns) eqn:Eown.
+      * (* the own source is requested already: the children know *)
+        do 2 eexists. split; [reflexivity|].
+        exists (ns_set_env ns (env_with_stop (n_env ns) true)), sa, sb.
+        split; [reflexivity|]. split; [exact Hbs|]. split; [reflexivity|].
+        rewrite Hk. cbv zeta. fold sg af pa pb. cbn [ns_set_env own_stop adone bdone saved va vb].
+        rewrite Eown. split; [reflexivity|]. repeat (split; [assumption|]); assumption.
+      * cbn [ns_set_own ns_set_env bdone adone].
+        assert (Gb : exists sb' trb, (if bdone ns then (sb, [], None) else stop b sb) = (sb', trb, None) /\
+                       (done_by (D b bs t0 pb) n = false -> Inv b bs t0 pb n true sb')).
+        { destruct (bdone ns) eqn:Ebd.
+          - exists sb, []. split; [reflexivity|]. intros Hc. rewrite Hc in Hbd. discriminate.
+          - symmetry in Hbd. destruct (IHb Hnb _ _ _ _ _ (Hb Hbd)) as [sb' [trb [Es Hb']]].
+            exists sb', trb. split; [exact Es|]. intros _. exact Hb'. }
+        assert (Ga : exists sa' tra, (if adone ns then (sa, [], None) else stop a sa) = (sa', tra, None) /\
+                       (done_by (D a bs t0 pa) n = false -> Inv a bs t0 pa n true sa')).
+        { destruct (adone ns) eqn:Ead.
+          - exists sa, []. split; [reflexivity|]. intros Hc. rewrite Hc in Had. discriminate.
+          - symmetry in Had. destruct (IHa Hna _ _ _ _ _ (Ha Had)) as [sa' [tra [Es Ha']]].
+            exists sa', tra. split; [exact Es|]. intros _. exact Ha'. }
+        destruct Gb as [sb' [trb [Eb Hb']]]. destruct Ga as [sa' [tra [Ea Ha']]].
+        rewrite Eb. cbv beta iota. cbn [ns_set_own ns_set_env bdone adone]. rewrite Ea. cbv beta iota.
+        unfold finish_conc. do 2 eexists. split; [reflexivity|].
+        eexists _, sa', sb'. split; [reflexivity|].
+        cbn [ns_set_own ns_set_env n_env own_stop adone bdone saved va vb env_with_stop e_bound e_stopped].
+        split; [exact Hbs|]. split; [reflexivity|].
+        rewrite Hk. cbv zeta. fold sg af pa pb.
+        split; [reflexivity|]. repeat (split; [assumption|]); assumption.
+Qed.
+
+End WithScript.
+
+(* ------------------------------------------------------------------------------------------ *)
+(* the bookkeeping of a concurrent node, by the status of its children                          *)
+
+Definition is_some {A : Type} (x : option A) : bool := match x with Some _ => true | None => false end.
+
+(* the outcome r completed with by time n *)
+Definition done_val (r : dres) (n : nat) : option outcome :=
+  match r with Some (o, t) => if t <=? n then Some o else None | None => None end.
+
+Definition trig_o (k : bkind) (s : option outcome) : bool :=
+  match s with Some o => triggers k o | None => false end.
+Definition fail_o (s : option outcome) : option outcome :=
+  match s with Some o => if nonval o then Some o else None | None => None end.
+Definition saved_of (k : bkind) (af : bool) (sa sb : option outcome) : option outcome :=
+  match k with
+  | BWhenAll => match fail_o sa, fail_o sb with
+                | Some oa, Some ob => Some (if af then oa else ob)
+                | Some oa, None => Some oa
+                | None, fb => fb
+                end
+  | _ => sa
+  end.
+
+Definition CI (k : bkind) (af F : bool) (sa sb : option outcome) (ns : nst) (bs : list Z) : Prop :=
+  e_bound (n_env ns) = bs /\ e_stopped (n_env ns) = F /\
+  own_stop ns = F || trig_o k sa || trig_o k sb /\
+  adone ns = is_some sa /\ bdone ns = is_some sb /\
+  saved ns = saved_of k af sa sb /\
+  (forall x, sa = Some (OVal x) -> va ns = x) /\ (forall x, sb = Some (OVal x) -> vb ns = x).
+
+Lemma done_by_val : forall r n, done_by r n = is_some (done_val r n).
+Proof. intros [[o t]|] n; simpl; [destruct (t <=? n)|]; reflexivity. Qed.
+Lemma trig_done_val : forall k r n, trig_done k r n = trig_o k (done_val r n).
+Proof. intros k [[o t]|] n; simpl; [destruct (t <=? n); simpl; [apply andb_true_r|apply andb_false_r]|reflexivity]. Qed.
+Lemma fail_by_val : forall r n, fail_by r n = fail_o (done_val r n).
+Proof. intros [[o t]|] n; simpl; [destruct (t <=? n); reflexivity|reflexivity]. Qed.
+Lemma conc_saved_val : forall k af ra rb n,
+  conc_saved k af ra rb n = saved_of k af (done_val ra n) (done_val rb n).
+Proof.
+  intros k af ra rb n. unfold conc_saved, saved_of. rewrite !fail_by_val.
+  destruct k; try reflexivity; destruct ra as [[oa ta]|]; reflexivity.
+Qed.
+Lemma val_ok_val : forall r n v, val_ok r n v <-> (forall x, done_val r n = Some (OVal x) -> v = x).
+Proof.
+  intros r n v. split.
+  - intros H x E. destruct r as [[o t]|]; simpl in E; [|discriminate].
+    destruct (t <=? n) eqn:Et; [|discriminate]. inversion E; subst. apply (H x t eq_refl).
+    apply Nat.leb_le; exact Et.
+  - intros H x t E Ht. apply H. rewrite E. simpl. apply Nat.leb_le in Ht. rewrite Ht. reflexivity.
+Qed.
+
+Lemma done_val_none : forall r n, done_val r n = None <-> done_by r n = false.
+Proof. intros r n. rewrite done_by_val. destruct (done_val r n); simpl; split; intro H; try discriminate; reflexivity. Qed.
+
+Lemma done_val_some : forall r n o, done_val r n = Some o -> exists t, r = Some (o, t) /\ t <= n.
+Proof.
+  intros [[o' t]|] n o H; simpl in H; [|discriminate]. destruct (t <=? n) eqn:E; [|discriminate].
+  inversion H; subst. exists t. split; [reflexivity|apply Nat.leb_le; exact E].
+Qed.
+
+Lemma done_val_of : forall r n o t, r = Some (o, t) -> t <= n -> done_val r n = Some o.
+Proof. intros r n o t -> H. simpl. apply Nat.leb_le in H. rewrite H. reflexivity. Qed.
+
+Lemma done_val_quiet : forall r n, quiet r n -> done_val r (S n) = done_val r n.
+Proof. intros [[o t]|] n H; unfold quiet in H; simpl in *; [rewrite H|]; reflexivity. Qed.
+
+Lemma quiet_done : forall r n, done_by r n = true -> quiet r n.
+Proof. intros r n H. unfold quiet. rewrite H. apply done_by_mono. exact H. Qed.
+
+Lemma triggers_nonval : forall o, triggers BWhenAll o = nonval o.
+Proof. destruct o; reflexivity. Qed.
+
+Lemma CI_child_a : forall k af F sb ns bs oa, is_seq k = false -> CI k af F None sb ns bs ->
+  (forall ob, sb = Some ob -> triggers k oa = true -> triggers k ob = true -> af = false) ->
+  exists ns2 fin,
+    conc_child_done k ns false oa = (ns2, triggers k oa && negb (own_stop ns), fin) /\
+    CI k af F (Some oa) sb ns2 bs /\
+    fin = match sb with
+          | Some _ => Some (conc_final k F (saved ns2) (va ns2) (vb ns2))
+          | None => None
+          end.
+Proof.
+  intros k af F sb ns bs oa Hk HCI Hord.
+  destruct (ccd_spec k ns false oa Hk) as [ns2 [fin [E [He [Ho [Ha [Hb [Hva [Hvb [Hs Hf]]]]]]]]]].
+  destruct HCI as (C1 & C2 & C3 & C4 & C5 & C6 & C7 & C8).
+  exists ns2, fin. split; [exact E|]. split.
+  - unfold CI. rewrite He. split; [exact C1|]. split; [exact C2|].
+    split; [rewrite Ho, C3; simpl; destruct F; destruct (trig_o k sb); destruct (triggers k oa); reflexivity|].
+    split; [exact Ha|]. split; [rewrite Hb; exact C5|].
+    split; [|split; [intros x Hx; inversion Hx; subst; rewrite Hva; reflexivity|rewrite Hvb; exact C8]].
+    rewrite Hs, C6. destruct k; try discriminate Hk; simpl; [|reflexivity].
+    destruct sb as [ob|]; simpl.
+    + destruct (nonval ob) eqn:Nb; destruct oa; simpl; try reflexivity;
+        rewrite (Hord ob eq_refl eq_refl) by (rewrite triggers_nonval; exact Nb); reflexivity.
+    + destruct oa; reflexivity.
+  - rewrite Hf, Ha, Hb, C5, C2. destruct sb; reflexivity.
+Qed.
+
+Lemma CI_child_b : forall k af F sa ns bs ob, is_seq k = false -> CI k af F sa None ns bs ->
+  (forall oa, sa = Some oa -> triggers k oa = true -> triggers k ob = true -> af = true) ->
+  exists ns2 fin,
+    conc_child_done k ns true ob = (ns2, triggers k ob && negb (own_stop ns), fin) /\
+    CI k af F sa (Some ob) ns2 bs /\
+    fin = match sa with
+          | Some _ => Some (conc_final k F (saved ns2) (va ns2) (vb ns2))
+          | None => None
+          end.
+Proof.
+  intros k af F sa ns bs ob Hk HCI Hord.
+  destruct (ccd_spec k ns true ob Hk) as [ns2 [fin [E [He [Ho [Ha [Hb [Hva [Hvb [Hs Hf]]]]]]]]]].
+  destruct HCI as (C1 & C2 & C3 & C4 & C5 & C6 & C7 & C8).
+  exists ns2, fin. split; [exact E|]. split.
+  - unfold CI. rewrite He. split; [exact C1|]. split; [exact C2|].
+    split; [rewrite Ho, C3; simpl; destruct F; destruct (trig_o k sa); destruct (triggers k ob); reflexivity|].
+    split; [rewrite Ha; exact C4|]. split; [exact Hb|].
+    split; [|split; [rewrite Hva; exact C7|intros x Hx; inversion Hx; subst; rewrite Hvb; reflexivity]].
+    rewrite Hs, C6. destruct k; try discriminate Hk; simpl; [|reflexivity].
+    destruct sa as [oa|]; simpl.
+    + destruct (nonval oa) eqn:Na; destruct ob; simpl; try reflexivity;
+        rewrite (Hord oa eq_refl) by (try reflexivity; rewrite triggers_nonval; exact Na); reflexivity.
+    + destruct ob; reflexivity.
+  - rewrite Hf, Ha, Hb, C4, C2. destruct sa; reflexivity.
+Qed.
+
+Lemma CI_final : forall k af F oa ob ns bs, is_seq k = false -> CI k af F (Some oa) (Some ob) ns bs ->
+  conc_final k F (saved ns) (va ns) (vb ns) = conc_out k F af oa ob.
+Proof.
+  intros k af F oa ob ns bs Hk (C1 & C2 & C3 & C4 & C5 & C6 & C7 & C8).
+  rewrite C6. destruct k; try discriminate Hk; simpl; [|reflexivity].
+  unfold when_all_out. destruct F; [reflexivity|].
+  destruct oa as [x| |]; destruct ob as [y| |]; simpl; try reflexivity.
+  rewrite (C7 x eq_refl), (C8 y eq_refl). reflexivity.
+Qed.
+
+Lemma CI_init : forall k af en, 
+  CI k af (e_stopped en) None None
+     (ns_set_own (ns_set_reg (mk_nst PBoth en) (negb (e_stopped en))) (e_stopped en)) (e_bound en).
+Proof.
+  intros k af en. unfold CI. simpl. rewrite !orb_false_r.
+  repeat split; try reflexivity; try (intros; discriminate). destruct k; reflexivity.
+Qed.
+
+Lemma newly_false_own : forall o t : bool, t && negb o = false -> o || t = o.
+Proof. intros [|] [|]; simpl; intro H; try reflexivity; discriminate. Qed.
+Lemma newly_true_own : forall o t : bool, t && negb o = true -> o = false /\ o || t = true.
+Proof. intros [|] [|]; simpl; intro H; try discriminate; auto. Qed.
+
+Section WithScript.
+Variable script : list sev.
+Notation D := (denote script).
+Notation Inv := (Inv script).
+
+(* the plan of a concurrent node *)
+Definition p_sg k a b bs t0 ts := conc_sigma k (D a bs t0) (D b bs t0) t0 ts.
+Definition p_af k a b bs t0 ts := conc_afirst k (D a bs t0) (D b bs t0) t0 ts.
+Definition p_pa k a b bs t0 ts := if p_af k a b bs t0 ts then ts else p_sg k a b bs t0 ts.
+Definition p_pb k a b bs t0 ts := if p_af k a b bs t0 ts then p_sg k a b bs t0 ts else ts.
+Definition p_ra k a b bs t0 ts := D a bs t0 (p_pa k a b bs t0 ts).
+Definition p_rb k a b bs t0 ts := D b bs t0 (p_pb k a b bs t0 ts).
+
+Lemma inv_conc_iff : forall k a b bs t0 ts n F st, is_seq k = false ->
+  (Inv (Bin k a b) bs t0 ts n F st <->
+   exists ns sa sb, st = ONode ns sa sb /\
+     CI k (p_af k a b bs t0 ts) F (done_val (p_ra k a b bs t0 ts) n) (done_val (p_rb k a b bs t0 ts) n) ns bs /\
+     (done_val (p_ra k a b bs t0 ts) n = None -> Inv a bs t0 (p_pa k a b bs t0 ts) n (own_stop ns) sa) /\
+     (done_val (p_rb k a b bs t0 ts) n = None -> Inv b bs t0 (p_pb k a b bs t0 ts) n (own_stop ns) sb)).
+Proof.
+  intros k a b bs t0 ts n F st Hk. cbn [DenoteProofs.Inv]. rewrite Hk. cbv zeta.
+  fold (p_sg k a b bs t0 ts). fold (p_af k a b bs t0 ts).
+  fold (p_pa k a b bs t0 ts). fold (p_pb k a b bs t0 ts).
+  fold (p_ra k a b bs t0 ts). fold (p_rb k a b bs t0 ts).
+  unfold CI. rewrite !trig_done_val, !done_by_val, conc_saved_val.
+  split.
+  - intros [ns [sa [sb [E [H1 [H2 [H3 [H4 [H5 [H6 [H7 [H8 [H9 H10]]]]]]]]]]]]].
+    pose proof (proj1 (val_ok_val _ _ _) H9) as H9'. pose proof (proj1 (val_ok_val _ _ _) H10) as H10'.
+    exists ns, sa, sb. split; [exact E|].
+    split; [repeat (split; [assumption|]); assumption|].
+    split; intros Hd; [apply H6|apply H7]; rewrite Hd; reflexivity.
+  - intros [ns [sa [sb [E [[H1 [H2 [H3 [H4 [H5 [H8 [H9 H10]]]]]]] [H6 H7]]]]]].
+    exists ns, sa, sb. repeat (split; [assumption|]).
+    split; [|split; [|split; [assumption|split; apply (proj2 (val_ok_val _ _ _)); assumption]]].
+    + intros Hd. apply H6. destruct (done_val (p_ra k a b bs t0 ts) n); [discriminate|reflexivity].
+    + intros Hd. apply H7. destruct (done_val (p_rb k a b bs t0 ts) n); [discriminate|reflexivity].
+Qed.
+
+Lemma denote_conc_p : forall k a b bs t0 ts, is_seq k = false ->
+  D (Bin k a b) bs t0 ts =
+  conc_result k ts (p_ra k a b bs t0 ts, p_rb k a b bs t0 ts, p_af k a b bs t0 ts).
+Proof. intros. rewrite denote_conc by assumption. reflexivity. Qed.
+
+Lemma done_by_conc : forall k a b bs t0 ts n, is_seq k = false ->
+  done_by (D (Bin k a b) bs t0 ts) n =
+  done_by (p_ra k a b bs t0 ts) n && done_by (p_rb k a b bs t0 ts) n.
+Proof.
+  intros k a b bs t0 ts n Hk. rewrite (denote_conc_p _ _ _ _ _ _ Hk).
+  destruct (p_ra k a b bs t0 ts) as [[oa ta]|]; destruct (p_rb k a b bs t0 ts) as [[ob tb]|]; simpl;
+    try reflexivity; [|rewrite andb_false_r; reflexivity].
+  destruct (ta <=? n) eqn:Ea; destruct (tb <=? n) eqn:Eb; destruct (Nat.max ta tb <=? n) eqn:Em;
+    try reflexivity; exfalso;
+    repeat match goal with
+           | H : (_ <=? _) = true |- _ => apply Nat.leb_le in H
+           | H : (_ <=? _) = false |- _ => apply Nat.leb_gt in H
+           end; lia.
+Qed.
+
+End WithScript.
+
+(* ------------------------------------------------------------------------------------------ *)
+(* what the own stop source of a concurrent node looks like to its children                     *)
+
+Lemma stopped_now_mono : forall c x y, stopped_now c x = true -> x <= y -> stopped_now c y = true.
+Proof. intros [c|] x y H L; simpl in *; [|discriminate]. apply Nat.leb_le in H. apply Nat.leb_le. lia. Qed.
+
+Lemma stopped_now_trig_a : forall k r n, stopped_now (trig_a k r) (2 * n + 1) = trig_done k r n.
+Proof.
+  intros k [[o t]|] n; simpl; [|reflexivity]. destruct (triggers k o); simpl; [|reflexivity].
+  destruct (t <=? n) eqn:E; [apply Nat.leb_le in E; apply Nat.leb_le; lia|apply Nat.leb_gt in E; apply Nat.leb_gt; lia].
+Qed.
+
+Lemma stopped_now_trig_a0 : forall k r n, stopped_now (trig_a k r) (2 * n) = trig_done k r n.
+Proof.
+  intros k [[o t]|] n; simpl; [|reflexivity]. destruct (triggers k o); simpl; [|reflexivity].
+  destruct (t <=? n) eqn:E; [apply Nat.leb_le in E; apply Nat.leb_le; lia|apply Nat.leb_gt in E; apply Nat.leb_gt; lia].
+Qed.
+
+Lemma stopped_now_trig_a_S : forall k r n, quiet r n -> stopped_now (trig_a k r) (2 * n + 2) = trig_done k r n.
+Proof.
+  intros k [[o t]|] n Q; unfold quiet in Q; simpl in *; [|reflexivity].
+  destruct (triggers k o); simpl; [|reflexivity]. rewrite <- Q.
+  destruct (t <=? S n) eqn:E; [apply Nat.leb_le in E; apply Nat.leb_le; lia|apply Nat.leb_gt in E; apply Nat.leb_gt; lia].
+Qed.
+
+Lemma stopped_now_trig_b : forall k t0 r n, (forall o t, r = Some (o, t) -> t0 <= t) ->
+  stopped_now (trig_b k t0 r) (2 * n + 1) = trig_done k r n.
+Proof.
+  intros k t0 [[o t]|] n L; unfold trig_b, trig_done; [|reflexivity].
+  destruct (triggers k o); simpl; [|reflexivity]. specialize (L o t eq_refl).
+  pose proof (code_b_bounds t0 t L) as B. unfold code_b in B.
+  destruct (t <=? n) eqn:E; [apply Nat.leb_le in E; apply Nat.leb_le|apply Nat.leb_gt in E; apply Nat.leb_gt];
+    (destruct (t =? t0) eqn:E0; [apply Nat.eqb_eq in E0|apply Nat.eqb_neq in E0]; lia).
+Qed.
+
+Lemma stopped_now_trig_b_S : forall k t0 r n, (forall o t, r = Some (o, t) -> t0 <= t) ->
+  quiet r n -> t0 <= n -> stopped_now (trig_b k t0 r) (2 * n + 2) = trig_done k r n.
+Proof.
+  intros k t0 [[o t]|] n L Q Hle; unfold trig_b, trig_done; unfold quiet in Q; simpl in Q; [|reflexivity].
+  destruct (triggers k o); simpl; [|reflexivity]. specialize (L o t eq_refl).
+  destruct (t <=? n) eqn:E.
+  - apply Nat.leb_le in E. apply Nat.leb_le. destruct (t =? t0) eqn:E0; [apply Nat.eqb_eq in E0|apply Nat.eqb_neq in E0]; lia.
+  - apply Nat.leb_gt in E. apply Nat.leb_gt in Q. apply Nat.leb_gt.
+    destruct (t =? t0) eqn:E0; [apply Nat.eqb_eq in E0|apply Nat.eqb_neq in E0]; lia.
+Qed.
+
+Lemma stopped_now_trig_b_0 : forall k t0 r, (forall o t, r = Some (o, t) -> t0 <= t) ->
+  stopped_now (trig_b k t0 r) (2 * t0) = false.
+Proof.
+  intros k t0 [[o t]|] L; unfold trig_b; [|reflexivity].
+  destruct (triggers k o); simpl; [|reflexivity]. specialize (L o t eq_refl).
+  apply Nat.leb_gt. destruct (t =? t0) eqn:E0; [apply Nat.eqb_eq in E0|apply Nat.eqb_neq in E0]; lia.
+Qed.
+
+Lemma trig_done_inv : forall k r n, trig_done k r n = true ->
+  exists o t, r = Some (o, t) /\ triggers k o = true /\ t <= n.
+Proof.
+  intros k [[o t]|] n H; simpl in H; [|discriminate]. apply andb_true_iff in H. destruct H as [H1 H2].
+  apply Nat.leb_le in H2. eauto.
+Qed.
+
+Section PlanCoh.
+Variables (k : bkind) (da db : option nat -> dres) (t0 : nat) (ts : option nat).
+Hypothesis Hla : lower_fn da t0.
+Hypothesis Hlb : lower_fn db t0.
+Hypothesis Hca : causal_fn da.
+Hypothesis Hcb : causal_fn db.
+
+Let sg := conc_sigma k da db t0 ts.
+Let af := conc_afirst k da db t0 ts.
+Let pa := if af then ts else sg.
+Let pb := if af then sg else ts.
+
+Lemma plan_S1 : stopped_now pa (2 * t0) = stopped_now ts (2 * t0).
+Proof.
+  case_eq af; intro Haf; unfold pa; rewrite Haf; [reflexivity|].
+  destruct (sigma_bf k da db t0 ts Haf) as [Hsg _]. fold sg in Hsg. rewrite Hsg, stopped_now_omin.
+  rewrite stopped_now_trig_b_0 by (intros o t; apply Hlb). apply orb_false_r.
+Qed.
+
+Lemma plan_S2 : stopped_now pb (2 * t0) = stopped_now ts (2 * t0) || trig_done k (da pa) t0.
+Proof.
+  case_eq af; intro Haf.
+  - destruct (sigma_af k da db t0 ts Haf) as [xa [Hna [Hsg _]]]. fold sg in Hsg.
+    unfold pb, pa. rewrite Haf, Hsg, stopped_now_omin, <- Hna. rewrite stopped_now_trig_a0. reflexivity.
+  - assert (Epb : pb = ts) by (unfold pb; rewrite Haf; reflexivity). rewrite Epb.
+    destruct (trig_done k (da pa) t0) eqn:T; [|rewrite orb_false_r; reflexivity].
+    destruct (trig_done_inv _ _ _ T) as [o [t [Hr [Ht Hle]]]].
+    pose proof (plan_a_not_before k da db t0 ts Hca Haf o t Hr Ht) as Hs. fold sg in Hs.
+    pose proof (Hla _ _ _ Hr) as Hge. assert (t = t0) by lia. subst t.
+    rewrite <- plan_S1. unfold pa. rewrite Haf. rewrite Hs. reflexivity.
+Qed.
+
+Lemma plan_coh_a : forall n, done_by (da pa) n = false -> quiet (db pb) n -> t0 <= n ->
+  stopped_now ts (2 * n + 2) = stopped_now ts (2 * n + 1) ->
+  stopped_now pa (2 * n + 1) = stopped_now ts (2 * n + 1) || trig_done k (db pb) n /\
+  stopped_now pa (2 * n + 2) = stopped_now ts (2 * n + 1) || trig_done k (db pb) n.
+Proof.
+  intros n Hp Q Hle HF. case_eq af; intro Haf.
+  - assert (Epa : pa = ts) by (unfold pa; rewrite Haf; reflexivity). rewrite Epa in *. rewrite HF.
+    destruct (trig_done k (db pb) n) eqn:T; [|rewrite orb_false_r; split; reflexivity].
+    destruct (trig_done_inv _ _ _ T) as [o [t [Hr [Ht Hlt]]]].
+    pose proof (plan_b_not_before k da db t0 ts Hlb Hcb Haf o t Hr Ht) as Hs. fold sg in Hs.
+    pose proof (code_b_bounds t0 t (Hlb _ _ _ Hr)) as B.
+    pose proof (stopped_now_mono _ _ (2 * n + 1) Hs ltac:(lia)) as Hs'.
+    destruct (sigma_af k da db t0 ts Haf) as [xa [Hna [Hsg _]]]. fold sg in Hsg.
+    rewrite Hsg, stopped_now_omin in Hs'.
+    assert (Hx : stopped_now (Some xa) (2 * n + 1) = false).
+    { rewrite <- Hna, stopped_now_trig_a. destruct (da ts) as [[o' t']|]; simpl in *; [|reflexivity].
+      rewrite Hp. apply andb_false_r. }
+    rewrite Hx, orb_false_r in Hs'. rewrite Hs'. split; reflexivity.
+  - destruct (sigma_bf k da db t0 ts Haf) as [Hsg _]. fold sg in Hsg.
+    assert (Epa : pa = sg) by (unfold pa; rewrite Haf; reflexivity).
+    assert (Epb : pb = ts) by (unfold pb; rewrite Haf; reflexivity).
+    rewrite Epa, Epb in *. rewrite Hsg, !stopped_now_omin.
+    rewrite stopped_now_trig_b by (intros o t; apply Hlb).
+    rewrite stopped_now_trig_b_S by (try (intros o t; apply Hlb); assumption).
+    rewrite HF. split; reflexivity.
+Qed.
+
+Lemma plan_coh_b : forall n, done_by (db pb) n = false -> quiet (da pa) n -> t0 <= n ->
+  stopped_now ts (2 * n + 2) = stopped_now ts (2 * n + 1) ->
+  stopped_now pb (2 * n + 1) = stopped_now ts (2 * n + 1) || trig_done k (da pa) n /\
+  stopped_now pb (2 * n + 2) = stopped_now ts (2 * n + 1) || trig_done k (da pa) n.
+Proof.
+  intros n Hp Q Hle HF. case_eq af; intro Haf.
+  - destruct (sigma_af k da db t0 ts Haf) as [xa [Hna [Hsg _]]]. fold sg in Hsg.
+    assert (Epa : pa = ts) by (unfold pa; rewrite Haf; reflexivity).
+    assert (Epb : pb = sg) by (unfold pb; rewrite Haf; reflexivity).
+    rewrite Epa, Epb in *. rewrite Hsg, !stopped_now_omin, <- Hna.
+    rewrite stopped_now_trig_a. rewrite stopped_now_trig_a_S by assumption.
+    rewrite HF. split; reflexivity.
+  - assert (Epb : pb = ts) by (unfold pb; rewrite Haf; reflexivity). rewrite Epb in *. rewrite HF.
+    destruct (trig_done k (da pa) n) eqn:T; [|rewrite orb_false_r; split; reflexivity].
+    destruct (trig_done_inv _ _ _ T) as [o [t [Hr [Ht Hlt]]]].
+    pose proof (plan_a_not_before k da db t0 ts Hca Haf o t Hr Ht) as Hs. fold sg in Hs.
+    pose proof (stopped_now_mono _ _ (2 * n + 1) Hs ltac:(lia)) as Hs'.
+    destruct (sigma_bf k da db t0 ts Haf) as [Hsg _]. fold sg in Hsg.
+    rewrite Hsg, stopped_now_omin in Hs'.
+    rewrite stopped_now_trig_b in Hs' by (intros o' t'; apply Hlb).
+    assert (Hx : trig_done k (db ts) n = false).
+    { destruct (db ts) as [[o' t']|]; simpl in *; [|reflexivity]. rewrite Hp. apply andb_false_r. }
+    rewrite Hx, orb_false_r in Hs'. rewrite Hs'. split; reflexivity.
+Qed.
+
+(* which of two triggering completions is the first *)
+Lemma plan_ord_step_a : forall n oa ob tb,
+  da pa = Some (oa, S n) -> db pb = Some (ob, tb) -> tb <= n -> triggers k ob = true -> af = false.
+Proof.
+  intros n oa ob tb Ra Rb Hle Hb. case_eq af; intro Haf; [exfalso|reflexivity].
+  pose proof (plan_order_af k da db t0 ts Hlb Hcb Haf oa (S n) ob tb Ra Rb Hb) as H.
+  pose proof (code_b_bounds t0 tb (Hlb _ _ _ Rb)) as B. lia.
+Qed.
+
+Lemma plan_ord_step_b : forall n oa ta ob, t0 <= n ->
+  da pa = Some (oa, ta) -> ta <= n -> triggers k oa = true ->
+  db pb = Some (ob, S n) -> triggers k ob = true -> af = true.
+Proof.
+  intros n oa ta ob Hle Ra Hta Ha Rb Hb. case_eq af; intro Haf; [reflexivity|exfalso].
+  pose proof (plan_order_bf k da db t0 ts Hca Haf oa ta ob (S n) Ra Ha Rb Hb) as H.
+  pose proof (code_b_bounds t0 (S n) ltac:(lia)) as B. lia.
+Qed.
+
+Lemma plan_ord_start : forall oa ob,
+  da pa = Some (oa, t0) -> triggers k oa = true -> db pb = Some (ob, t0) -> triggers k ob = true -> af = true.
+Proof.
+  intros oa ob Ra Ha Rb Hb. case_eq af; intro Haf; [reflexivity|exfalso].
+  pose proof (plan_order_bf k da db t0 ts Hca Haf oa t0 ob t0 Ra Ha Rb Hb) as H.
+  unfold code_b in H. rewrite Nat.eqb_refl in H. lia.
+Qed.
+
+End PlanCoh.
+
+Definition res_ok (P : outcome -> Prop) (Q : ost -> Prop) (x : res) : Prop :=
+  match x with
+  | (st, _, Some o) => st = OFin /\ P o
+  | (st, _, None) => Q st
+  end.
+
+Lemma un_env_bound : forall k en, e_bound (un_env k en) = e_bound en.
+Proof. intros k en. destruct k; try reflexivity. destruct q; reflexivity. Qed.
+Lemma un_env_stopped : forall k en, e_stopped (un_env k en) = un_flag k (e_stopped en).
+Proof. intros k en. destruct k; try reflexivity. destruct q; reflexivity. Qed.
+Lemma stopped_now_un_ts : forall k ts x, stopped_now (un_ts k ts) x = un_flag k (stopped_now ts x).
+Proof. intros k ts x. destruct k; reflexivity. Qed.
+
+Lemma trig_done_pending : forall k r n, done_by r n = false -> trig_done k r n = false.
+Proof. intros k [[o t]|] n H; simpl in *; [rewrite H; apply andb_false_r|reflexivity]. Qed.
+
+Section WithScript.
+Variable script : list sev.
+Notation D := (denote script).
+Notation Inv := (Inv script).
+Notation p_af := (p_af script).
+Notation p_sg := (p_sg script).
+Notation p_pa := (p_pa script).
+Notation p_pb := (p_pb script).
+Notation p_ra := (p_ra script).
+Notation p_rb := (p_rb script).
+
+Lemma pS1 : forall k a b bs t0 ts, no_leafn a = true -> no_leafn b = true ->
+  stopped_now (p_pa k a b bs t0 ts) (2 * t0) = stopped_now ts (2 * t0).
+Proof. intros. apply plan_S1. apply denote_lower; assumption. Qed.
+
+Lemma pS2 : forall k a b bs t0 ts, no_leafn a = true -> no_leafn b = true ->
+  stopped_now (p_pb k a b bs t0 ts) (2 * t0) =
+  stopped_now ts (2 * t0) || trig_done k (p_ra k a b bs t0 ts) t0.
+Proof. intros. apply plan_S2; auto using denote_lower, denote_causal. Qed.
+
+Lemma pcoh_a : forall k a b bs t0 ts, no_leafn a = true -> no_leafn b = true ->
+  forall n, done_by (p_ra k a b bs t0 ts) n = false -> quiet (p_rb k a b bs t0 ts) n -> t0 <= n ->
+  stopped_now ts (2 * n + 2) = stopped_now ts (2 * n + 1) ->
+  stopped_now (p_pa k a b bs t0 ts) (2 * n + 1) = stopped_now ts (2 * n + 1) || trig_done k (p_rb k a b bs t0 ts) n /\
+  stopped_now (p_pa k a b bs t0 ts) (2 * n + 2) = stopped_now ts (2 * n + 1) || trig_done k (p_rb k a b bs t0 ts) n.
+Proof. intros k a b bs t0 ts Hna Hnb. apply plan_coh_a; auto using denote_lower, denote_causal. Qed.
+
+Lemma pcoh_b : forall k a b bs t0 ts, no_leafn a = true -> no_leafn b = true ->
+  forall n, done_by (p_rb k a b bs t0 ts) n = false -> quiet (p_ra k a b bs t0 ts) n -> t0 <= n ->
+  stopped_now ts (2 * n + 2) = stopped_now ts (2 * n + 1) ->
+  stopped_now (p_pb k a b bs t0 ts) (2 * n + 1) = stopped_now ts (2 * n + 1) || trig_done k (p_ra k a b bs t0 ts) n /\
+  stopped_now (p_pb k a b bs t0 ts) (2 * n + 2) = stopped_now ts (2 * n + 1) || trig_done k (p_ra k a b bs t0 ts) n.
+Proof. intros k a b bs t0 ts Hna Hnb. apply plan_coh_b; auto using denote_lower, denote_causal. Qed.
+
+Lemma pord_a : forall k a b bs t0 ts, no_leafn a = true -> no_leafn b = true ->
+  forall n oa ob tb,
+  p_ra k a b bs t0 ts = Some (oa, S n) -> p_rb k a b bs t0 ts = Some (ob, tb) -> tb <= n ->
+  triggers k ob = true -> p_af k a b bs t0 ts = false.
+Proof. intros k a b bs t0 ts Hna Hnb. apply plan_ord_step_a; auto using denote_lower, denote_causal. Qed.
+
+Lemma pord_b : forall k a b bs t0 ts, no_leafn a = true -> no_leafn b = true ->
+  forall n oa ta ob, t0 <= n ->
+  p_ra k a b bs t0 ts = Some (oa, ta) -> ta <= n -> triggers k oa = true ->
+  p_rb k a b bs t0 ts = Some (ob, S n) -> triggers k ob = true -> p_af k a b bs t0 ts = true.
+Proof. intros k a b bs t0 ts Hna Hnb. apply plan_ord_step_b; auto using denote_lower, denote_causal. Qed.
+
+Lemma pord_start : forall k a b bs t0 ts, no_leafn a = true -> no_leafn b = true ->
+  forall oa ob,
+  p_ra k a b bs t0 ts = Some (oa, t0) -> triggers k oa = true ->
+  p_rb k a b bs t0 ts = Some (ob, t0) -> triggers k ob = true -> p_af k a b bs t0 ts = true.
+Proof. intros k a b bs t0 ts Hna Hnb. apply plan_ord_start; auto using denote_lower, denote_causal. Qed.
+
+Lemma done_by_seq_a : forall k a b bs t0 ts n, is_seq k = true -> no_leafn b = true ->
+  done_by (D a bs t0 ts) n = false -> done_by (D (Bin k a b) bs t0 ts) n = false.
+Proof.
+  intros k a b bs t0 ts n Hk Hnb Hp. rewrite (denote_seq _ _ _ _ _ _ _ Hk).
+  destruct (D a bs t0 ts) as [[oa t1]|]; [|reflexivity]. simpl in Hp.
+  destruct (seq_next k bs oa) as [[bs' sv]|]; [|exact Hp].
+  destruct (D b bs' t1 ts) as [[ob t2]|] eqn:Rb; [|reflexivity].
+  apply (denote_ge _ _ Hnb) in Rb. simpl. apply Nat.leb_gt in Hp. apply Nat.leb_gt. lia.
+Qed.
+
+(* ------------------------------------------------------------------------------------------ *)
+(* start: completes inline iff the denotation completes at the start time                       *)
+
+Lemma start_spec : forall e, no_leafn e = true -> forall bs t0 ts en,
+  e_bound en = bs -> e_stopped en = stopped_now ts (2 * t0) ->
+  res_ok (fun o => D e bs t0 ts = Some (o, t0))
+         (fun st => done_by (D e bs t0 ts) t0 = false /\ Inv e bs t0 ts t0 (e_stopped en) st)
+         (start e en).
+Proof.
+  induction e as [v|x| |m|id|id|k s IHs|k a IHa b IHb]; intros Hn bs t0 ts en Hbs Hst.
+  - split; reflexivity.
+  - split; reflexivity.
+  - split; reflexivity.
+  - cbn [start]. split; [reflexivity|]. cbn [denote]. rewrite Hbs. reflexivity.
+  - assert (Hp : done_by (D (Leaf id) bs t0 ts) t0 = false).
+    { cbn [denote]. destruct (first_leaf_event script id t0) as [[o t]|] eqn:E; [|reflexivity].
+      apply fle_some in E. simpl. apply Nat.leb_gt. lia. }
+    cbn [start]. destruct (e_stopped en); (split; [exact Hp|eexists; reflexivity]).
+  - discriminate Hn.
+  - (* unary adaptors *)
+    rewrite start_Un.
+    assert (Hb' : e_bound (un_env k en) = bs) by (rewrite un_env_bound; exact Hbs).
+    assert (Hs' : e_stopped (un_env k en) = stopped_now (un_ts k ts) (2 * t0))
+      by (rewrite un_env_stopped, stopped_now_un_ts, Hst; reflexivity).
+    generalize (IHs Hn bs t0 (un_ts k ts) (un_env k en) Hb' Hs').
+    destruct (start s (un_env k en)) as [[sc trs] [o1|]].
+    + pose proof (un_result_out k o1) as Ho. destruct (un_result k o1) as [tr2 o']. simpl in Ho. subst o'.
+      unfold res_ok. intros [_ Hd]. split; [reflexivity|]. rewrite denote_un, Hd. reflexivity.
+    + unfold res_ok. intros [Hp HI]. split; [rewrite done_by_un; exact Hp|].
+      exists (mk_nst PFirst en), sc. split; [reflexivity|]. rewrite un_env_stopped in HI. exact HI.
+  - cbn [no_leafn] in Hn. apply andb_true_iff in Hn. destruct Hn as [Hna Hnb].
+    destruct (is_seq k) eqn:Hk.
+    + (* sequential kinds *)
+      rewrite (start_Bin_seq _ _ _ _ Hk).
+      generalize (IHa Hna bs t0 ts en Hbs Hst).
+      destruct (start a en) as [[sa tra] [oa|]].
+      * unfold res_ok at 1. intros [_ Ra].
+        pose proof (after_first_spec k en oa) as AF. rewrite Hbs in AF.
+        destruct (seq_next k bs oa) as [[bs' sv]|] eqn:Hsn.
+        -- destruct AF as [en2 [E1 [E2 E3]]]. rewrite E1.
+           assert (Hst2 : e_stopped en2 = stopped_now ts (2 * t0)) by (rewrite E3; exact Hst).
+           generalize (IHb Hnb bs' t0 ts en2 E2 Hst2).
+           destruct (start b en2) as [[sb trb] [ob|]]; unfold res_ok.
+           ++ intros [_ Rb]. split; [reflexivity|].
+              rewrite (denote_seq _ _ _ _ _ _ _ Hk), Ra, Hsn, Rb. reflexivity.
+           ++ intros [Hp HI]. split.
+              ** rewrite (done_by_seq_b _ _ _ _ _ _ _ _ _ _ _ _ Hk Ra Hsn). exact Hp.
+              ** exists (ns_set_saved (mk_nst PSecond en) sv), OFin, sb.
+                 split; [reflexivity|]. split; [exact Hbs|]. split; [reflexivity|].
+                 rewrite Hk, Ra, Nat.leb_refl, Hsn. split; [discriminate|]. split; [reflexivity|].
+                 rewrite E3 in HI. exact HI.
+        -- rewrite AF. split; [reflexivity|].
+           rewrite (denote_seq _ _ _ _ _ _ _ Hk), Ra, Hsn. reflexivity.
+      * unfold res_ok. intros [Hp HI]. split; [apply done_by_seq_a; assumption|].
+        exists (mk_nst PFirst en), sa, OFin.
+        split; [reflexivity|]. split; [exact Hbs|]. split; [reflexivity|]. rewrite Hk.
+        destruct (D a bs t0 ts) as [[oa t1]|]; [simpl in Hp; rewrite Hp|]; (split; [reflexivity|exact HI]).
+    + (* when_all / stop_when *)
+      rewrite (start_Bin_conc _ _ _ _ Hk). cbv zeta.
+      set (ns0 := ns_set_own (ns_set_reg (mk_nst PBoth en) (negb (e_stopped en))) (e_stopped en)).
+      change (own_stop ns0) with (e_stopped en).
+      pose proof (pS1 k a b bs t0 ts Hna Hnb) as S1. pose proof (pS2 k a b bs t0 ts Hna Hnb) as S2.
+      set (af := p_af k a b bs t0 ts) in *. set (pa := p_pa k a b bs t0 ts) in *.
+      set (pb := p_pb k a b bs t0 ts) in *.
+      assert (HCI0 : CI k af (e_stopped en) None None ns0 bs) by (rewrite <- Hbs; apply CI_init).
+      assert (Hsa : e_stopped (env_own en (e_stopped en)) = stopped_now pa (2 * t0))
+        by (rewrite S1; exact Hst).
+      generalize (IHa Hna bs t0 pa (env_own en (e_stopped en)) Hbs Hsa).
+      destruct (start a (env_own en (e_stopped en))) as [[sa tra] [oa|]]; unfold res_ok at 1.
+      * (* a completes inline *)
+        intros [_ Ra]. change (D a bs t0 pa) with (p_ra k a b bs t0 ts) in Ra.
+        destruct (CI_child_a k af _ None ns0 bs oa Hk HCI0 ltac:(intros; discriminate))
+          as [ns1 [fin1 [E1 [HCI1 _]]]].
+        rewrite E1. cbv beta iota.
+        assert (Hown1 : own_stop ns1 = e_stopped en || triggers k oa).
+        { destruct HCI1 as (_ & _ & C3 & _). rewrite C3. simpl. apply orb_false_r. }
+        assert (Hsb : e_stopped (env_own en (own_stop ns1)) = stopped_now pb (2 * t0)).
+        { cbn [env_own e_stopped]. rewrite S2, Ra, Hown1, Hst. simpl. rewrite Nat.leb_refl, andb_true_r. reflexivity. }
+        generalize (IHb Hnb bs t0 pb (env_own en (own_stop ns1)) Hbs Hsb).
+        destruct (start b (env_own en (own_stop ns1))) as [[sb trb] [ob|]]; unfold res_ok at 1.
+        -- (* both inline *)
+           intros [_ Rb]. change (D b bs t0 pb) with (p_rb k a b bs t0 ts) in Rb.
+           assert (ORD : forall oa', Some oa = Some oa' -> triggers k oa' = true -> triggers k ob = true -> af = true).
+           { intros oa' E Ta Tb. inversion E; subst oa'. exact (pord_start k a b bs t0 ts Hna Hnb oa ob Ra Ta Rb Tb). }
+           destruct (CI_child_b k af _ (Some oa) ns1 bs ob Hk HCI1 ORD) as [ns2 [fin2 [E2 [HCI2 Hf2]]]].
+           rewrite E2. cbv beta iota. rewrite Hf2. unfold finish_conc, res_ok.
+           split; [reflexivity|].
+           rewrite (denote_conc_p script _ _ _ _ _ _ Hk), Ra, Rb. cbn [conc_result]. rewrite Nat.max_id.
+           rewrite (CI_final _ _ _ _ _ _ _ Hk HCI2). rewrite stopped_by_now, <- Hst. reflexivity.
+        -- (* b pending *)
+           intros [Hpb HIb]. change (D b bs t0 pb) with (p_rb k a b bs t0 ts) in Hpb.
+           unfold res_ok. split.
+           ++ rewrite (done_by_conc script _ _ _ _ _ _ _ Hk), Hpb. apply andb_false_r.
+           ++ apply (inv_conc_iff script _ _ _ _ _ _ _ _ _ Hk). exists ns1, sa, sb.
+              split; [reflexivity|].
+              rewrite (done_val_of _ _ _ _ Ra (le_n t0)).
+              rewrite (proj2 (done_val_none _ _) Hpb).
+              split; [exact HCI1|]. split; [intros; discriminate|intros _; exact HIb].
+      * (* a pending *)
+        intros [Hpa HIa]. change (D a bs t0 pa) with (p_ra k a b bs t0 ts) in Hpa.
+        cbv beta iota. change (own_stop ns0) with (e_stopped en).
+        assert (Hsb : e_stopped (env_own en (e_stopped en)) = stopped_now pb (2 * t0)).
+        { cbn [env_own e_stopped]. rewrite S2, (trig_done_pending _ _ _ Hpa), orb_false_r. exact Hst. }
+        generalize (IHb Hnb bs t0 pb (env_own en (e_stopped en)) Hbs Hsb).
+        destruct (start b (env_own en (e_stopped en))) as [[sb trb] [ob|]]; unfold res_ok at 1.
+        -- (* b inline, a still running *)
+           intros [_ Rb]. change (D b bs t0 pb) with (p_rb k a b bs t0 ts) in Rb.
+           destruct (CI_child_b k af _ None ns0 bs ob Hk HCI0 ltac:(intros; discriminate))
+             as [ns2 [fin2 [E2 [HCI2 Hf2]]]].
+           rewrite E2. cbv beta iota. rewrite Hf2.
+           assert (Hown2 : own_stop ns2 = own_stop ns0 || triggers k ob).
+           { destruct HCI2 as (_ & _ & C3 & _). rewrite C3. simpl. rewrite orb_false_r. reflexivity. }
+           assert (Hpe : done_by (D (Bin k a b) bs t0 ts) t0 = false)
+             by (rewrite (done_by_conc script _ _ _ _ _ _ _ Hk), Hpa; reflexivity).
+           destruct (triggers k ob && negb (own_stop ns0)) eqn:Enew.
+           ++ apply newly_true_own in Enew. destruct Enew as [Eo Eo'].
+              change (own_stop ns0) with (e_stopped en) in Eo.
+              change (e_stopped (env_own en (e_stopped en))) with (e_stopped en) in HIa.
+              rewrite Eo in HIa.
+              destruct (stop_spec script a Hna _ _ _ _ _ HIa) as [sa' [tra2 [Es HIa']]].
+              rewrite Es. unfold res_ok. split; [exact Hpe|].
+              apply (inv_conc_iff script _ _ _ _ _ _ _ _ _ Hk). exists ns2, sa', OFin.
+              split; [reflexivity|].
+              rewrite (proj2 (done_val_none _ _) Hpa). rewrite (done_val_of _ _ _ _ Rb (le_n t0)).
+              split; [exact HCI2|]. split; [intros _; rewrite Hown2, Eo'; exact HIa'|intros; discriminate].
+           ++ apply newly_false_own in Enew. unfold res_ok. split; [exact Hpe|].
+              apply (inv_conc_iff script _ _ _ _ _ _ _ _ _ Hk). exists ns2, sa, OFin.
+              split; [reflexivity|].
+              rewrite (proj2 (done_val_none _ _) Hpa). rewrite (done_val_of _ _ _ _ Rb (le_n t0)).
+              split; [exact HCI2|]. split; [intros _; rewrite Hown2, Enew; exact HIa|intros; discriminate].
+        -- (* both pending *)
+           intros [Hpb HIb]. change (D b bs t0 pb) with (p_rb k a b bs t0 ts) in Hpb.
+           unfold res_ok. split.
+           ++ rewrite (done_by_conc script _ _ _ _ _ _ _ Hk), Hpa; reflexivity.
+           ++ apply (inv_conc_iff script _ _ _ _ _ _ _ _ _ Hk). exists ns0, sa, sb.
+              split; [reflexivity|].
+              rewrite (proj2 (done_val_none _ _) Hpa). rewrite (proj2 (done_val_none _ _) Hpb).
+              split; [exact HCI0|]. split; intros _; assumption.
+Qed.
+
+End WithScript.
+
+Lemma nodup_app : forall (l1 l2 : list nat), NoDup (l1 ++ l2) ->
+  NoDup l1 /\ NoDup l2 /\ (forall x, In x l1 -> ~ In x l2).
+Proof.
+  induction l1 as [|y l1 IH]; simpl; intros l2 H.
+  - split; [constructor|]. split; [exact H|]. intros x [].
+  - inversion H as [|y' l' H2 H3]; subst. destruct (IH l2 H3) as [A [B C]].
+    split; [constructor; [intro Hin; apply H2; apply in_or_app; left; exact Hin|exact A]|].
+    split; [exact B|].
+    intros x [->|Hin] Hin2; [apply H2; apply in_or_app; right; exact Hin2|exact (C x Hin Hin2)].
+Qed.
+
+Section WithScript.
+Variable script : list sev.
+Notation D := (denote script).
+Notation Inv := (Inv script).
+Notation p_af := (p_af script).
+Notation p_pa := (p_pa script).
+Notation p_pb := (p_pb script).
+Notation p_ra := (p_ra script).
+Notation p_rb := (p_rb script).
+
+(* one event: the operation completes iff the denotation completes at this time *)
+Definition step_ok (e : sexpr) (bs : list Z) (t0 : nat) (ts : option nat) (n : nat) (F : bool) (st : ost)
+           (x : res * bool) : Prop :=
+  match x with
+  | ((st', _, Some o'), hit) => hit = true /\ st' = OFin /\ D e bs t0 ts = Some (o', S n)
+  | ((st', _, None), hit) =>
+      done_by (D e bs t0 ts) (S n) = false /\ Inv e bs t0 ts (S n) F st' /\ (hit = false -> st' = st)
+  end.
+
+(* a concurrent node whose children's completion status does not change *)
+Lemma inv_conc_keep : forall k a b bs t0 ts n F ns sa sb, is_seq k = false ->
+  CI k (p_af k a b bs t0 ts) F (done_val (p_ra k a b bs t0 ts) n) (done_val (p_rb k a b bs t0 ts) n) ns bs ->
+  quiet (p_ra k a b bs t0 ts) n -> quiet (p_rb k a b bs t0 ts) n ->
+  (done_by (p_ra k a b bs t0 ts) n = false -> Inv a bs t0 (p_pa k a b bs t0 ts) (S n) (own_stop ns) sa) ->
+  (done_by (p_rb k a b bs t0 ts) n = false -> Inv b bs t0 (p_pb k a b bs t0 ts) (S n) (own_stop ns) sb) ->
+  Inv (Bin k a b) bs t0 ts (S n) F (ONode ns sa sb).
+Proof.
+  intros k a b bs t0 ts n F ns sa sb Hk HCI Qa Qb Ha Hb.
+  apply (inv_conc_iff script _ _ _ _ _ _ _ _ _ Hk). exists ns, sa, sb. split; [reflexivity|].
+  rewrite (done_val_quiet _ _ Qa), (done_val_quiet _ _ Qb). split; [exact HCI|].
+  split; intros Hd; [apply Ha|apply Hb]; apply done_val_none; exact Hd.
+Qed.
+
+Lemma quiet_pending : forall r n, done_by r n = false -> done_by r (S n) = false -> quiet r n.
+Proof. intros r n H1 H2. unfold quiet. rewrite H1, H2. reflexivity. Qed.
+
+Lemma step_spec : forall e, no_leafn e = true -> NoDup (leaf_ids e) -> forall bs t0 ts n F st id o,
+  t0 <= n -> nth_error script n = Some (EvLeaf id o) ->
+  F = stopped_now ts (2 * n + 1) -> stopped_now ts (2 * n + 2) = stopped_now ts (2 * n + 1) ->
+  done_by (D e bs t0 ts) n = false -> Inv e bs t0 ts n F st ->
+  step_ok e bs t0 ts n F st (leafev e st id o).
+Proof.
+  induction e as [v|x| |m|id'|id'|k s IHs|k a IHa b IHb];
+    intros Hn Hnd bs t0 ts n F st id o Hle Hev HF1 HF2 Hp HI; try (exfalso; exact HI).
+  - (* a leaf *)
+    destruct HI as [seen ->]. cbn [leafev]. cbn [denote] in Hp.
+    destruct (Nat.eqb id id') eqn:E.
+    + apply Nat.eqb_eq in E. subst id'. unfold step_ok. split; [reflexivity|]. split; [reflexivity|].
+      cbn [denote]. apply fle_hit; assumption.
+    + apply Nat.eqb_neq in E. unfold step_ok. split.
+      * cbn [denote]. eapply fle_miss; [exact Hp|exact Hev|]. intro Hc; apply E; symmetry; exact Hc.
+      * split; [eexists; reflexivity|reflexivity].
+  - (* unary adaptors *)
+    destruct HI as [ns [sc [-> Hs]]]. rewrite leafev_Un.
+    assert (HF1' : un_flag k F = stopped_now (un_ts k ts) (2 * n + 1))
+      by (rewrite stopped_now_un_ts, HF1; reflexivity).
+    assert (HF2' : stopped_now (un_ts k ts) (2 * n + 2) = stopped_now (un_ts k ts) (2 * n + 1))
+      by (rewrite !stopped_now_un_ts, HF2; reflexivity).
+    rewrite done_by_un in Hp.
+    generalize (IHs Hn Hnd bs t0 (un_ts k ts) n (un_flag k F) sc id o Hle Hev HF1' HF2' Hp Hs).
+    destruct (leafev s sc id o) as [[[sc' trs] [oc|]] hit]; unfold step_ok.
+    + pose proof (un_result_out k oc) as Ho. destruct (un_result k oc) as [tr2 o']. simpl in Ho. subst o'.
+      intros [Hh [_ Hd]]. split; [exact Hh|]. split; [reflexivity|]. rewrite denote_un, Hd. reflexivity.
+    + intros [Hp1 [HI1 Hsame]]. split; [rewrite done_by_un; exact Hp1|].
+      split; [exists ns, sc'; split; [reflexivity|exact HI1]|intros Hh; rewrite (Hsame Hh); reflexivity].
+  - cbn [no_leafn] in Hn. apply andb_true_iff in Hn. destruct Hn as [Hna Hnb].
+    cbn [leaf_ids] in Hnd. destruct (nodup_app _ _ Hnd) as [Hnda [Hndb Hdisj]].
+    destruct (is_seq k) eqn:Hk.
+    + (* sequential kinds *)
+      destruct HI as [ns [sa [sb [-> [Hbs [Hst Hrest]]]]]]. rewrite Hk in Hrest.
+      rewrite (leafev_Bin_seq _ _ _ _ _ _ _ _ Hk).
+      assert (G1 : ph ns = PFirst /\ Inv a bs t0 ts n F sa -> done_by (D a bs t0 ts) n = false ->
+                   step_ok (Bin k a b) bs t0 ts n F (ONode ns sa sb)
+                     match ph ns with
+                     | PFirst =>
+                         let '(sa', tra, ra, hit) := leafev a sa id o in
+                         match ra with
+                         | Some oa =>
+                             match after_first k (n_env ns) oa with
+                             | inl o' => (OFin, tra, Some o', hit)
+                             | inr (en2, sv) =>
+                                 let '(sb', trb, rb) := start b en2 in
+                                 match rb with
+                                 | Some ob => (OFin, tra ++ trb, Some (after_second k sv ob), hit)
+                                 | None =>
+                                     (ONode (ns_set_saved (ns_set_ph ns PSecond) sv) OFin sb', tra ++ trb, None, hit)
+                                 end
+                             end
+                         | None => (ONode ns sa' sb, tra, None, hit)
+                         end
+                     | _ =>
+                         let '(sb', trb, rb, hit) := leafev b sb id o in
+                         match rb with
+                         | Some ob => (OFin, trb, Some (after_second k (saved ns) ob), hit)
+                         | None => (ONode ns sa sb', trb, None, hit)
+                         end
+                     end).
+      { intros [Hph Ha] Hpa. rewrite Hph.
+        generalize (IHa Hna Hnda bs t0 ts n F sa id o Hle Hev HF1 HF2 Hpa Ha).
+        destruct (leafev a sa id o) as [[[sa' tra] [oa|]] hit]; unfold step_ok at 1.
+        - intros [Hh [_ Ra]].
+          pose proof (after_first_spec k (n_env ns) oa) as AF. rewrite Hbs in AF.
+          destruct (seq_next k bs oa) as [[bs' sv]|] eqn:Hsn.
+          + destruct AF as [en2 [E1 [E2 E3]]]. rewrite E1.
+            assert (Hst2 : e_stopped en2 = stopped_now ts (2 * S n)).
+            { rewrite E3, Hst, HF1, <- HF2. f_equal. lia. }
+            generalize (start_spec script b Hnb bs' (S n) ts en2 E2 Hst2).
+            destruct (start b en2) as [[sb' trb] [ob|]]; unfold res_ok, step_ok.
+            * intros [_ Rb]. split; [exact Hh|]. split; [reflexivity|].
+              rewrite (denote_seq _ _ _ _ _ _ _ Hk), Ra, Hsn, Rb. reflexivity.
+            * intros [Hpb HIb]. split; [rewrite (done_by_seq_b _ _ _ _ _ _ _ _ _ _ _ _ Hk Ra Hsn); exact Hpb|].
+              split; [|intros Hc; rewrite Hh in Hc; discriminate].
+              exists (ns_set_saved (ns_set_ph ns PSecond) sv), OFin, sb'.
+              split; [reflexivity|]. split; [exact Hbs|]. split; [exact Hst|].
+              rewrite Hk, Ra, Nat.leb_refl, Hsn. split; [discriminate|]. split; [reflexivity|].
+              rewrite E3, Hst in HIb. exact HIb.
+          + rewrite AF. unfold step_ok. split; [exact Hh|]. split; [reflexivity|].
+            rewrite (denote_seq _ _ _ _ _ _ _ Hk), Ra, Hsn. reflexivity.
+        - intros [Hpa' [HIa Hsame]]. unfold step_ok.
+          split; [apply done_by_seq_a; assumption|].
+          split; [|intros Hh; rewrite (Hsame Hh); reflexivity].
+          exists ns, sa', sb. split; [reflexivity|]. split; [exact Hbs|]. split; [exact Hst|]. rewrite Hk.
+          destruct (D a bs t0 ts) as [[oa t1]|]; [simpl in Hpa'; rewrite Hpa'|]; (split; [exact Hph|exact HIa]). }
+      destruct (D a bs t0 ts) as [[oa t1]|] eqn:Ra; [|exact (G1 Hrest eq_refl)].
+      destruct (t1 <=? n) eqn:Et; [|exact (G1 Hrest Et)].
+      destruct (seq_next k bs oa) as [[bs' sv]|] eqn:Hsn; [|contradiction].
+      destruct Hrest as [Hph [Hsv Hb]]. apply Nat.leb_le in Et.
+      rewrite (done_by_seq_b script _ _ _ _ _ _ _ _ _ _ _ Hk Ra Hsn) in Hp.
+      generalize (IHb Hnb Hndb bs' t1 ts n F sb id o Et Hev HF1 HF2 Hp Hb).
+      assert (Et' : (t1 <=? S n) = true) by (apply Nat.leb_le; lia).
+      destruct (ph ns) eqn:Eph; [contradiction| |];
+        (destruct (leafev b sb id o) as [[[sb' trb] [ob|]] hit]; unfold step_ok;
+         [ intros [Hh [_ Rb]]; split; [exact Hh|]; split; [reflexivity|];
+           rewrite (denote_seq _ _ _ _ _ _ _ Hk), Ra, Hsn, Rb, Hsv; reflexivity
+         | intros [Hp1 [HI1 Hsame]];
+           split; [rewrite (done_by_seq_b script _ _ _ _ _ _ _ _ _ _ _ Hk Ra Hsn); exact Hp1|];
+           split; [|intros Hh; rewrite (Hsame Hh); reflexivity];
+           exists ns, sa, sb'; split; [reflexivity|]; split; [exact Hbs|]; split; [exact Hst|];
+           rewrite Hk, Ra, Et', Hsn; split; [rewrite Eph; discriminate|]; split; [exact Hsv|exact HI1] ]).
+    + (* when_all / stop_when *)
+      apply (inv_conc_iff script _ _ _ _ _ _ _ _ _ Hk) in HI.
+      destruct HI as [ns [sa [sb [-> [HCI [HIa HIb]]]]]].
+      rewrite (done_by_conc script _ _ _ _ _ _ _ Hk) in Hp.
+      rewrite (leafev_Bin_conc _ _ _ _ _ _ _ _ Hk).
+      set (af := p_af k a b bs t0 ts) in *. set (pa := p_pa k a b bs t0 ts) in *.
+      set (pb := p_pb k a b bs t0 ts) in *.
+      set (ra := p_ra k a b bs t0 ts) in *. set (rb := p_rb k a b bs t0 ts) in *.
+      assert (Had : adone ns = done_by ra n).
+      { destruct HCI as (_ & _ & _ & C4 & _). rewrite C4, done_by_val. reflexivity. }
+      assert (Hbd : bdone ns = done_by rb n).
+      { destruct HCI as (_ & _ & _ & _ & C5 & _). rewrite C5, done_by_val. reflexivity. }
+      assert (Hown : own_stop ns = F || trig_done k ra n || trig_done k rb n).
+      { destruct HCI as (_ & _ & C3 & _). rewrite C3, !trig_done_val. reflexivity. }
+      assert (HFS : stopped_by ts (S n) = F).
+      { rewrite stopped_by_now, HF1, <- HF2. f_equal. lia. }
+      (* the generic "b is not touched" part of the machine *)
+      assert (Gb : ~ In id (leaf_ids b) \/ done_by rb n = true ->
+                   (if bdone ns then (sb, [], None, false) else leafev b sb id o) = ((sb, [], None), false)).
+      { intros Hc. rewrite Hbd. destruct (done_by rb n) eqn:Db; [reflexivity|].
+        destruct Hc as [Hc|Hc]; [|discriminate].
+        apply (leafev_miss script b bs t0 pb n (own_stop ns)); [|exact Hc].
+        apply HIb. apply done_val_none. exact Db. }
+      assert (Ga : ~ In id (leaf_ids a) \/ done_by ra n = true ->
+                   (if adone ns then (sa, [], None, false) else leafev a sa id o) = ((sa, [], None), false)).
+      { intros Hc. rewrite Had. destruct (done_by ra n) eqn:Da; [reflexivity|].
+        destruct Hc as [Hc|Hc]; [|discriminate].
+        apply (leafev_miss script a bs t0 pa n (own_stop ns)); [|exact Hc].
+        apply HIa. apply done_val_none. exact Da. }
+      (* a child the event is not for, or that is finished, is quiet; if running it advances *)
+      assert (Qa_of : ~ In id (leaf_ids a) \/ done_by ra n = true -> quiet ra n).
+      { intros [Hc|Hc]; [exact (quiet_of script a Hna bs t0 pa n id o Hev Hc Hle)|apply quiet_done; exact Hc]. }
+      assert (Qb_of : ~ In id (leaf_ids b) \/ done_by rb n = true -> quiet rb n).
+      { intros [Hc|Hc]; [exact (quiet_of script b Hnb bs t0 pb n id o Hev Hc Hle)|apply quiet_done; exact Hc]. }
+      assert (Adv_a : ~ In id (leaf_ids a) -> done_by ra n = false ->
+                      Inv a bs t0 pa (S n) (own_stop ns) sa).
+      { intros Hc Da. apply (inv_advance script a Hna bs t0 pa n (own_stop ns) sa id o Hle Hev Hc Da).
+        apply HIa. apply done_val_none. exact Da. }
+      assert (Adv_b : ~ In id (leaf_ids b) -> done_by rb n = false ->
+                      Inv b bs t0 pb (S n) (own_stop ns) sb).
+      { intros Hc Db. apply (inv_advance script b Hnb bs t0 pb n (own_stop ns) sb id o Hle Hev Hc Db).
+        apply HIb. apply done_val_none. exact Db. }
+      destruct (in_dec Nat.eq_dec id (leaf_ids a)) as [Hina|Hnina].
+      * (* the event is for a leaf of a *)
+        assert (Hninb : ~ In id (leaf_ids b)) by (apply Hdisj; exact Hina).
+        pose proof (Qb_of (or_introl Hninb)) as Qb.
+        rewrite (Gb (or_introl Hninb)).
+        destruct (done_by ra n) eqn:Da.
+        -- (* a has finished already: nothing happens *)
+           simpl in Hp. rewrite (Ga (or_intror eq_refl)). cbv beta iota. unfold step_ok.
+           split; [rewrite (done_by_conc script _ _ _ _ _ _ _ Hk); fold rb;
+                   unfold quiet in Qb; rewrite Qb, Hp; apply andb_false_r|].
+           split; [|reflexivity].
+           apply inv_conc_keep; try assumption.
+           ++ apply quiet_done. exact Da.
+           ++ fold ra. rewrite Da. intros; discriminate.
+           ++ fold rb. intros Db. exact (Adv_b Hninb Db).
+        -- (* a is running *)
+           destruct (pcoh_a script k a b bs t0 ts Hna Hnb n Da Qb Hle HF2) as [C1 C2].
+           fold pa rb in C1, C2.
+           assert (Hown' : own_stop ns = stopped_now ts (2 * n + 1) || trig_done k rb n).
+           { rewrite Hown, (trig_done_pending _ _ _ Da), orb_false_r, HF1. reflexivity. }
+           assert (HF1' : own_stop ns = stopped_now pa (2 * n + 1)) by (rewrite C1; exact Hown').
+           assert (HF2' : stopped_now pa (2 * n + 2) = stopped_now pa (2 * n + 1)) by (rewrite C1, C2; reflexivity).
+           rewrite Had.
+           generalize (IHa Hna Hnda bs t0 pa n (own_stop ns) sa id o Hle Hev HF1' HF2' Da
+                           (HIa (proj2 (done_val_none _ _) Da))).
+           destruct (leafev a sa id o) as [[[sa' tra] [oa|]] hita]; unfold step_ok at 1.
+           ++ (* a completes now *)
+              intros [Hh [Hsa' Ra]]. subst hita sa'. cbv beta iota. change (D a bs t0 pa) with ra in Ra.
+              rewrite (proj2 (done_val_none _ _) Da) in HCI.
+              destruct (done_val rb n) as [ob|] eqn:Vb.
+              ** (* b had finished: the node completes *)
+                 destruct (done_val_some _ _ _ Vb) as [tb [Rb Htb]].
+                 assert (ORD : forall ob', Some ob = Some ob' -> triggers k oa = true ->
+                                           triggers k ob' = true -> af = false).
+                 { intros ob' E _ Tb. inversion E; subst ob'.
+                   exact (pord_a script k a b bs t0 ts Hna Hnb n oa ob tb Ra Rb Htb Tb). }
+                 destruct (CI_child_a k af F (Some ob) ns bs oa Hk HCI ORD) as [ns1 [fin [E1 [HCI1 Hf]]]].
+                 rewrite E1. cbv beta iota. rewrite Hf. unfold finish_conc, step_ok.
+                 split; [reflexivity|]. split; [reflexivity|].
+                 rewrite (denote_conc_p script _ _ _ _ _ _ Hk). fold ra rb af. rewrite Ra, Rb.
+                 cbn [conc_result]. replace (Nat.max (S n) tb) with (S n) by lia.
+                 rewrite (CI_final _ _ _ _ _ _ _ Hk HCI1), HFS. reflexivity.
+              ** (* b is still running *)
+                 assert (Db : done_by rb n = false) by (apply done_val_none; exact Vb).
+                 destruct (CI_child_a k af F None ns bs oa Hk HCI ltac:(intros; discriminate))
+                   as [ns1 [fin [E1 [HCI1 Hf]]]].
+                 rewrite E1. cbv beta iota. rewrite Hf.
+                 assert (Hown1 : own_stop ns1 = own_stop ns || triggers k oa).
+                 { destruct HCI1 as (_ & _ & C3 & _). destruct HCI as (_ & _ & C3' & _).
+                   rewrite C3, C3'. simpl. rewrite !orb_false_r. reflexivity. }
+                 assert (Hpe : done_by (D (Bin k a b) bs t0 ts) (S n) = false).
+                 { rewrite (done_by_conc script _ _ _ _ _ _ _ Hk). fold rb.
+                   unfold quiet in Qb. rewrite Qb, Db. apply andb_false_r. }
+                 assert (Vb' : done_val rb (S n) = None) by (rewrite (done_val_quiet _ _ Qb); exact Vb).
+                 assert (Va' : done_val ra (S n) = Some oa) by (exact (done_val_of _ _ _ _ Ra (le_n _))).
+                 pose proof (Adv_b Hninb Db) as HIb'.
+                 destruct (triggers k oa && negb (own_stop ns)) eqn:Enew.
+                 --- apply newly_true_own in Enew. destruct Enew as [Eo Eo'].
+                     rewrite Eo in HIb'.
+                     destruct (stop_spec script b Hnb _ _ _ _ _ HIb') as [sb' [trb [Es HIb'']]].
+                     rewrite Es. unfold step_ok. split; [exact Hpe|]. split; [|intros; discriminate].
+                     apply (inv_conc_iff script _ _ _ _ _ _ _ _ _ Hk). exists ns1, OFin, sb'.
+                     split; [reflexivity|]. fold ra rb af pa pb. rewrite Va', Vb'.
+                     split; [exact HCI1|]. split; [intros; discriminate|].
+                     intros _. rewrite Hown1, Eo'. exact HIb''.
+                 --- apply newly_false_own in Enew.
+                     unfold step_ok. split; [exact Hpe|]. split; [|intros; discriminate].
+                     apply (inv_conc_iff script _ _ _ _ _ _ _ _ _ Hk). exists ns1, OFin, sb.
+                     split; [reflexivity|]. fold ra rb af pa pb. rewrite Va', Vb'.
+                     split; [exact HCI1|]. split; [intros; discriminate|].
+                     intros _. rewrite Hown1, Enew. exact HIb'.
+           ++ (* a does not complete *)
+              intros [Hpa' [HIa' Hsame]]. change (D a bs t0 pa) with ra in Hpa'.
+              assert (Hpe : done_by (D (Bin k a b) bs t0 ts) (S n) = false).
+              { rewrite (done_by_conc script _ _ _ _ _ _ _ Hk). fold ra. rewrite Hpa'. reflexivity. }
+              assert (Qa : quiet ra n) by (apply quiet_pending; assumption).
+              destruct hita.
+              ** cbv beta iota. unfold step_ok. split; [exact Hpe|]. split; [|intros; discriminate].
+                 apply inv_conc_keep; try assumption.
+                 --- fold pa. intros _. exact HIa'.
+                 --- fold rb pb. intros Db. exact (Adv_b Hninb Db).
+              ** rewrite (Hsame eq_refl) in *. cbv beta iota. unfold step_ok.
+                 split; [exact Hpe|]. split; [|reflexivity].
+                 apply inv_conc_keep; try assumption.
+                 --- fold pa. intros _. exact HIa'.
+                 --- fold rb pb. intros Db. exact (Adv_b Hninb Db).
+      * (* the event is not for a *)
+        pose proof (Qa_of (or_introl Hnina)) as Qa.
+        rewrite (Ga (or_introl Hnina)). cbv beta iota.
+        destruct (done_by rb n) eqn:Db.
+        -- (* b has finished: nothing happens *)
+           rewrite andb_true_r in Hp. rewrite (Gb (or_intror eq_refl)). cbv beta iota. unfold step_ok.
+           split; [rewrite (done_by_conc script _ _ _ _ _ _ _ Hk); fold ra;
+                   unfold quiet in Qa; rewrite Qa, Hp; reflexivity|].
+           split; [|reflexivity].
+           apply inv_conc_keep; try assumption.
+           ++ apply quiet_done. exact Db.
+           ++ fold ra pa. intros Da. exact (Adv_a Hnina Da).
+           ++ fold rb. rewrite Db. intros; discriminate.
+        -- destruct (in_dec Nat.eq_dec id (leaf_ids b)) as [Hinb|Hninb].
+           ++ (* the event is for a leaf of b, which is running *)
+              destruct (pcoh_b script k a b bs t0 ts Hna Hnb n Db Qa Hle HF2) as [C1 C2].
+              fold pb ra in C1, C2.
+              assert (Hown' : own_stop ns = stopped_now ts (2 * n + 1) || trig_done k ra n).
+              { rewrite Hown, (trig_done_pending _ _ _ Db), orb_false_r, HF1. reflexivity. }
+              assert (HF1' : own_stop ns = stopped_now pb (2 * n + 1)) by (rewrite C1; exact Hown').
+              assert (HF2' : stopped_now pb (2 * n + 2) = stopped_now pb (2 * n + 1)) by (rewrite C1, C2; reflexivity).
+              rewrite Hbd.
+              generalize (IHb Hnb Hndb bs t0 pb n (own_stop ns) sb id o Hle Hev HF1' HF2' Db
+                              (HIb (proj2 (done_val_none _ _) Db))).
+              destruct (leafev b sb id o) as [[[sb' trb] [ob|]] hitb]; unfold step_ok at 1.
+              ** (* b completes now *)
+                 intros [Hh [Hsb' Rb]]. subst hitb sb'. change (D b bs t0 pb) with rb in Rb.
+                 rewrite (proj2 (done_val_none _ _) Db) in HCI.
+                 destruct (done_val ra n) as [oa|] eqn:Va.
+                 --- (* a had finished: the node completes *)
+                     destruct (done_val_some _ _ _ Va) as [ta [Ra Hta]].
+                     assert (ORD : forall oa', Some oa = Some oa' -> triggers k oa' = true ->
+                                               triggers k ob = true -> af = true).
+                     { intros oa' E Ta Tb. inversion E; subst oa'.
+                       exact (pord_b script k a b bs t0 ts Hna Hnb n oa ta ob Hle Ra Hta Ta Rb Tb). }
+                     destruct (CI_child_b k af F (Some oa) ns bs ob Hk HCI ORD) as [ns1 [fin [E1 [HCI1 Hf]]]].
+                     rewrite E1. cbv beta iota. rewrite Hf. unfold finish_conc, step_ok.
+                     split; [reflexivity|]. split; [reflexivity|].
+                     rewrite (denote_conc_p script _ _ _ _ _ _ Hk). fold ra rb af. rewrite Ra, Rb.
+                     cbn [conc_result]. replace (Nat.max ta (S n)) with (S n) by lia.
+                     rewrite (CI_final _ _ _ _ _ _ _ Hk HCI1), HFS. reflexivity.
+                 --- (* a is still running *)
+                     assert (Da : done_by ra n = false) by (apply done_val_none; exact Va).
+                     destruct (CI_child_b k af F None ns bs ob Hk HCI ltac:(intros; discriminate))
+                       as [ns1 [fin [E1 [HCI1 Hf]]]].
+                     rewrite E1. cbv beta iota. rewrite Hf.
+                     assert (Hown1 : own_stop ns1 = own_stop ns || triggers k ob).
+                     { destruct HCI1 as (_ & _ & C3 & _). destruct HCI as (_ & _ & C3' & _).
+                       rewrite C3, C3'. simpl. rewrite !orb_false_r. reflexivity. }
+                     assert (Hpe : done_by (D (Bin k a b) bs t0 ts) (S n) = false).
+                     { rewrite (done_by_conc script _ _ _ _ _ _ _ Hk). fold ra.
+                       unfold quiet in Qa. rewrite Qa, Da. reflexivity. }
+                     assert (Va' : done_val ra (S n) = None) by (rewrite (done_val_quiet _ _ Qa); exact Va).
+                     assert (Vb' : done_val rb (S n) = Some ob) by (exact (done_val_of _ _ _ _ Rb (le_n _))).
+                     pose proof (Adv_a Hnina Da) as HIa'.
+                     destruct (triggers k ob && negb (own_stop ns)) eqn:Enew.
+                     +++ apply newly_true_own in Enew. destruct Enew as [Eo Eo'].
+                         rewrite Eo in HIa'.
+                         destruct (stop_spec script a Hna _ _ _ _ _ HIa') as [sa' [tra [Es HIa'']]].
+                         rewrite Es. unfold step_ok. split; [exact Hpe|]. split; [|intros; discriminate].
+                         apply (inv_conc_iff script _ _ _ _ _ _ _ _ _ Hk). exists ns1, sa', OFin.
+                         split; [reflexivity|]. fold ra rb af pa pb. rewrite Va', Vb'.
+                         split; [exact HCI1|]. split; [|intros; discriminate].
+                         intros _. rewrite Hown1, Eo'. exact HIa''.
+                     +++ apply newly_false_own in Enew.
+                         unfold step_ok. split; [exact Hpe|]. split; [|intros; discriminate].
+                         apply (inv_conc_iff script _ _ _ _ _ _ _ _ _ Hk). exists ns1, sa, OFin.
+                         split; [reflexivity|]. fold ra rb af pa pb. rewrite Va', Vb'.
+                         split; [exact HCI1|]. split; [|intros; discriminate].
+                         intros _. rewrite Hown1, Enew. exact HIa'.
+              ** (* b does not complete *)
+                 intros [Hpb' [HIb' Hsame]]. change (D b bs t0 pb) with rb in Hpb'.
+                 assert (Hpe : done_by (D (Bin k a b) bs t0 ts) (S n) = false).
+                 { rewrite (done_by_conc script _ _ _ _ _ _ _ Hk). fold rb. rewrite Hpb'. apply andb_false_r. }
+                 assert (Qb : quiet rb n) by (apply quiet_pending; assumption).
+                 unfold step_ok. split; [exact Hpe|].
+                 split; [|intros Hh; rewrite (Hsame Hh); reflexivity].
+                 apply inv_conc_keep; try assumption.
+                 --- fold ra pa. intros Da. exact (Adv_a Hnina Da).
+                 --- fold pb. intros _. exact HIb'.
+           ++ (* the event is for neither child *)
+              pose proof (Qb_of (or_introl Hninb)) as Qb.
+              rewrite (Gb (or_introl Hninb)). cbv beta iota. unfold step_ok.
+              split; [rewrite (done_by_conc script _ _ _ _ _ _ _ Hk); fold rb;
+                      unfold quiet in Qb; rewrite Qb, Db; apply andb_false_r|].
+              split; [|reflexivity].
+              apply inv_conc_keep; try assumption.
+              ** fold ra pa. intros Da. exact (Adv_a Hnina Da).
+              ** fold rb pb. intros _. exact (Adv_b Hninb eq_refl).
+Qed.
+
+End WithScript.
+
+(* ------------------------------------------------------------------------------------------ *)
+(* whole runs                                                                                   *)
+
+
+Lemma xroots_app : forall l1 l2, xroots (l1 ++ l2) = xroots l1 ++ xroots l2.
+Proof.
+  induction l1 as [|x l1 IH]; intros l2; [reflexivity|]. simpl. destruct x; rewrite IH; reflexivity.
+Qed.
+
+Lemma xroots_XT : forall tr, xroots (map XT tr) = [].
+Proof. induction tr as [|x tr IH]; [reflexivity|exact IH]. Qed.
+
+Lemma xroots_In : forall tr o, In o (xroots tr) -> exists m, In (XRoot o m) tr.
+Proof.
+  induction tr as [|x tr IH]; intros o H; [destruct H|].
+  destruct x as [t|o' m|]; simpl in H.
+  - destruct (IH o H) as [m Hm]. exists m. right; exact Hm.
+  - destruct H as [->|H]; [exists m; left; reflexivity|].
+    destruct (IH o H) as [m' Hm]. exists m'. right; exact Hm.
+  - destruct (IH o H) as [m Hm]. exists m. right; exact Hm.
+Qed.
+
+Lemma firstn_succ_nth : forall (A : Type) (l : list A) n x,
+  nth_error l n = Some x -> firstn (S n) l = firstn n l ++ [x].
+Proof.
+  induction l as [|y l IH]; intros n x H; [destruct n; discriminate|].
+  destruct n as [|n]; simpl in *; [inversion H; reflexivity|]. f_equal. apply IH. exact H.
+Qed.
+
+Lemma stop_free_nth : forall script n ev, stop_free script = true -> nth_error script n = Some ev ->
+  exists id o, ev = EvLeaf id o.
+Proof.
+  intros script n ev Hsf Hn. unfold stop_free in Hsf. rewrite forallb_forall in Hsf.
+  specialize (Hsf ev (nth_error_In _ _ Hn)). destruct ev as [id o|]; [eauto|discriminate].
+Qed.
+
+Definition run_prefix (e : sexpr) (script : list sev) (n : nat) : run_state :=
+  fold_left (run_ev e) (firstn n script) (run_start e false).
+
+Lemma exec_prefix : forall e script n, exec e false (firstn n script) = run_prefix e script n.
+Proof. reflexivity. Qed.
+
+Definition skip_ev (rs : run_state) : run_state :=
+  {| r_st := r_st rs; r_stopped := r_stopped rs; r_roots := r_roots rs; r_tr := r_tr rs ++ [XSkip] |}.
+Definition step_leaf (e : sexpr) (rs : run_state) (id : nat) (o : outcome) : run_state :=
+  let '(r, hit) := leafev e (r_st rs) id o in if hit then absorb rs r else skip_ev rs.
+
+(* the state of the run after n events *)
+Definition run_inv (script : list sev) (e : sexpr) (n : nat) (rs : run_state) : Prop :=
+  match denote script e [] 0 None with
+  | Some (o, t) =>
+      if t <=? n then r_roots rs = 1 /\ r_st rs = OFin /\ xroots (r_tr rs) = [o]
+      else r_roots rs = 0 /\ xroots (r_tr rs) = [] /\ Inv script e [] 0 None n false (r_st rs)
+  | None => r_roots rs = 0 /\ xroots (r_tr rs) = [] /\ Inv script e [] 0 None n false (r_st rs)
+  end.
+
+Lemma run_prefix_inv : forall script e, stop_free script = true -> no_leafn e = true ->
+  NoDup (leaf_ids e) -> forall n, n <= length script -> run_inv script e n (run_prefix e script n).
+Proof.
+  intros script e Hsf Hn Hnd. induction n as [|n IH]; intros Hlen.
+  - (* start *)
+    unfold run_prefix, run_start. cbn [firstn fold_left].
+    generalize (start_spec script e Hn [] 0 None (root_env false) eq_refl eq_refl).
+    destruct (start e (root_env false)) as [[st tr] [o|]]; unfold res_ok, run_inv, absorb; cbn [r_st r_roots r_tr].
+    + intros [-> Hd]. rewrite Hd. cbn [Nat.leb]. split; [reflexivity|]. split; [reflexivity|].
+      rewrite xroots_app, xroots_app, xroots_XT. reflexivity.
+    + intros [Hp HI]. cbn [root_env e_stopped] in HI.
+      assert (G : r_roots {| r_st := st; r_stopped := false; r_roots := 0; r_tr := [] ++ map XT tr |} = 0 /\
+                  xroots ([] ++ map XT tr) = [] /\ Inv script e [] 0 None 0 false st).
+      { split; [reflexivity|]. split; [rewrite xroots_app, xroots_XT; reflexivity|exact HI]. }
+      destruct (denote script e [] 0 None) as [[o t]|]; [|exact G].
+      simpl in Hp. rewrite Hp. exact G.
+  - (* one more event *)
+    assert (Hlt : n < length script) by lia.
+    destruct (nth_error script n) as [ev|] eqn:Hev; [|apply nth_error_None in Hev; lia].
+    destruct (stop_free_nth _ _ _ Hsf Hev) as [id [o ->]].
+    unfold run_prefix. rewrite (firstn_succ_nth _ _ _ _ Hev), fold_left_app. cbn [fold_left].
+    fold (run_prefix e script n). specialize (IH ltac:(lia)).
+    set (rs := run_prefix e script n) in *.
+    change (run_ev e rs (EvLeaf id o)) with (step_leaf e rs id o).
+    assert (Pend : r_roots rs = 0 /\ xroots (r_tr rs) = [] /\ Inv script e [] 0 None n false (r_st rs) ->
+                   done_by (denote script e [] 0 None) n = false ->
+                   run_inv script e (S n) (step_leaf e rs id o)).
+    { intros [Hr [Hx HI]] Hp. unfold run_inv, step_leaf.
+      generalize (step_spec script e Hn Hnd [] 0 None n false (r_st rs) id o (Nat.le_0_l n) Hev
+                            eq_refl eq_refl Hp HI).
+      destruct (leafev e (r_st rs) id o) as [[[st' tr] [o'|]] hit]; unfold step_ok.
+      - intros [-> [-> Hd]]. rewrite Hd. rewrite Nat.leb_refl. unfold absorb. cbn [r_st r_roots r_tr].
+        split; [rewrite Hr; reflexivity|]. split; [reflexivity|].
+        rewrite !xroots_app, xroots_XT, Hx. reflexivity.
+      - intros [Hp' [HI' Hsame]].
+        assert (G : r_roots (if hit then absorb rs (st', tr, None) else skip_ev rs) = 0 /\
+                    xroots (r_tr (if hit then absorb rs (st', tr, None) else skip_ev rs)) = [] /\
+                    Inv script e [] 0 None (S n) false
+                      (r_st (if hit then absorb rs (st', tr, None) else skip_ev rs))).
+        { destruct hit; unfold absorb, skip_ev; cbn [r_st r_roots r_tr].
+          - split; [exact Hr|]. split; [rewrite xroots_app, xroots_XT, Hx; reflexivity|exact HI'].
+          - split; [exact Hr|]. split; [rewrite xroots_app, Hx; reflexivity|].
+            rewrite <- (Hsame eq_refl). exact HI'. }
+        destruct (denote script e [] 0 None) as [[o0 t]|]; [|exact G].
+        simpl in Hp'. rewrite Hp'. exact G. }
+    unfold run_inv in IH.
+    destruct (denote script e [] 0 None) as [[o0 t]|] eqn:Hd.
+    + destruct (t <=? n) eqn:Et.
+      * (* completed earlier: the event is skipped *)
+        destruct IH as [Hr [Hst Hx]]. unfold run_inv, step_leaf. rewrite Hd, Hst, leafev_OFin.
+        unfold skip_ev. cbn [r_st r_roots r_tr].
+        apply Nat.leb_le in Et. assert (Et' : (t <=? S n) = true) by (apply Nat.leb_le; lia). rewrite Et'.
+        split; [exact Hr|]. split; [first [reflexivity|exact Hst]|]. rewrite xroots_app, Hx. reflexivity.
+      * apply Pend; [exact IH|exact Et].
+    + apply Pend; [exact IH|reflexivity].
+Qed.
+
+(* ------------------------------------------------------------------------------------------ *)
+(* C05                                                                                          *)
+
+Theorem C05_result : forall e script,
+  stop_free script = true -> no_leafn e = true -> NoDup (leaf_ids e) ->
+  let rs := exec e false script in
+  match denote script e [] 0 None with
+  | Some (o, t) => (t <= length script)%nat /\ (exists n, In (XRoot o n) (r_tr rs)) /\ r_roots rs = 1%nat
+  | None => r_roots rs = 0%nat
+  end.
+Proof.
+  intros e script Hsf Hn Hnd rs.
+  pose proof (run_prefix_inv script e Hsf Hn Hnd (length script) (le_n _)) as H.
+  unfold run_prefix in H. rewrite firstn_all in H. fold (exec e false script) in H. fold rs in H.
+  unfold run_inv in H.
+  destruct (denote script e [] 0 None) as [[o t]|] eqn:Hd; [|tauto].
+  pose proof (denote_le_length script e Hn _ _ _ _ _ Hd (Nat.le_0_l _)) as Hle.
+  apply Nat.leb_le in Hle. rewrite Hle in H. destruct H as [Hr [_ Hx]].
+  apply Nat.leb_le in Hle. split; [exact Hle|]. split; [|exact Hr].
+  apply xroots_In. rewrite Hx. left; reflexivity.
+Qed.
+
+(* exactly one root completion, with the denoted outcome, and nothing else *)
+Theorem C05_result_unique : forall e script,
+  stop_free script = true -> no_leafn e = true -> NoDup (leaf_ids e) ->
+  xroots (r_tr (exec e false script)) =
+  match denote script e [] 0 None with Some (o, _) => [o] | None => [] end.
+Proof.
+  intros e script Hsf Hn Hnd.
+  pose proof (run_prefix_inv script e Hsf Hn Hnd (length script) (le_n _)) as H.
+  unfold run_prefix in H. rewrite firstn_all in H. fold (exec e false script) in H.
+  unfold run_inv in H.
+  destruct (denote script e [] 0 None) as [[o t]|] eqn:Hd; [|tauto].
+  pose proof (denote_le_length script e Hn _ _ _ _ _ Hd (Nat.le_0_l _)) as Hle.
+  apply Nat.leb_le in Hle. rewrite Hle in H. tauto.
+Qed.
+
+(* the root completes while exactly the t-th event is processed (inline in start when t = 0) *)
+Theorem C05_timing : forall e script,
+  stop_free script = true -> no_leafn e = true -> NoDup (leaf_ids e) ->
+  forall n, (n <= length script)%nat ->
+  r_roots (exec e false (firstn n script)) =
+  match denote script e [] 0 None with
+  | Some (_, t) => if (t <=? n)%nat then 1%nat else 0%nat
+  | None => 0%nat
+  end.
+Proof.
+  intros e script Hsf Hn Hnd n Hlen. rewrite exec_prefix.
+  pose proof (run_prefix_inv script e Hsf Hn Hnd n Hlen) as H. unfold run_inv in H.
+  destruct (denote script e [] 0 None) as [[o t]|]; [|tauto].
+  destruct (t <=? n); tauto.
+Qed.
+
+(* ------------------------------------------------------------------------------------------ *)
+(* algebraic laws, read off the denotation                                                      *)
+
+Lemma denote_then_just : forall script f v bs t ts,
+  denote script (Un (UThen f) (Just v)) bs t ts = Some (fn_out f v, t).
+Proof. reflexivity. Qed.
+
+Lemma denote_let_value_just : forall script v k bs t ts,
+  denote script (Bin BLetV (Just v) k) bs t ts = denote script k (v :: bs) t ts.
+Proof. reflexivity. Qed.
+
+Lemma denote_sequence_just : forall script v k bs t ts,
+  denote script (Bin BSeq (Just v) k) bs t ts = denote script k bs t ts.
+Proof. reflexivity. Qed.
+
+Lemma denote_finally_just : forall script a v bs t ts,
+  denote script (Bin BFinally a (Just v)) bs t ts = denote script a bs t ts.
+Proof. intros. cbn [denote]. destruct (denote script a bs t ts) as [[oa t1]|]; reflexivity. Qed.
+
+Lemma denote_when_all_justs : forall script x y bs t,
+  denote script (Bin BWhenAll (Just x) (Just y)) bs t None = Some (OVal (combine x y), t).
+Proof. intros. cbn. rewrite Nat.max_id. reflexivity. Qed.
+
+Lemma denote_stop_when_source : forall script a b bs t ts o t',
+  denote script (Bin BStopWhen a b) bs t ts = Some (o, t') ->
+  exists c ta, denote script a bs t c = Some (o, ta) /\ (ta <= t')%nat.
+Proof.
+  intros script a b bs t ts o t' H. cbn [denote] in H. unfold conc_children in H.
+  destruct (denote script a bs t _) as [[oa ta]|] eqn:Ea; [|discriminate].
+  destruct (denote script b bs t _) as [[ob tb]|]; [|discriminate].
+  inversion H; subst. eexists _, ta. split; [exact Ea|lia].
+Qed.
